@@ -31,6 +31,7 @@ Fixpoint conc_e (e : texpr) : bool :=
       | TOp _ a b => conc_e a && conc_e b
       | TBlock b => forallb conc_s b
       | TIf c a b => conc_e c && conc_e a && conc_e b
+      | TRange _ _ u => negb (unsigned_eqb u UnspecifiedU)   (* the range's own number type *)
       | _ => true
       end
   end
@@ -159,7 +160,9 @@ Proof.
     - inv_all. f_equal. f_equal. eapply map_last_expr_id; [eassumption|]. intros x x' Hin Hx.
       eapply IH; [exact Hx|]. rewrite forallb_forall in Hc. apply (Hc _ Hin).
     - apply andb_true_iff in Hc. destruct Hc as [Hc Hc3]. apply andb_true_iff in Hc. destruct Hc as [Hc1 Hc2].
-      inv_all. f_equal. f_equal; eapply IH; eauto. }
+      inv_all. f_equal. f_equal; eapply IH; eauto.
+    - (* range: its number type is not Unspecified, the arm of fix 7bf4e4f cannot fire *)
+      destruct t0; try discriminate Hc; apply Hleaf; exact H1. }
   subst e1. rewrite overwrite_ty_conc by (apply conc_e_ty; assumption). apply set_ty_same.
 Qed.
 
@@ -234,9 +237,10 @@ Definition scalar_uty (t : utype) : bool :=
 
 Fixpoint frag_p (p : upattern) : bool :=
   match p with
-  | PIdentifier _ => true
-  | PTuple ps => forallb frag_p ps
-  | _ => false
+  | PIdentifier _ | PTrue | PFalse | PNumUnsigned _ _ | PNumSigned _ _ | PEnumUnit _ _
+  | PUnsignedInclusiveRange _ _ _ | PSignedInclusiveRange _ _ _ => true
+  | PTuple ps | PEnumTuple _ _ ps => forallb frag_p ps
+  | PStruct _ fs | PStructIgnoreRemaining _ fs => forallb (fun f => frag_p (snd f)) fs
   end.
 
 Fixpoint frag_e (e : xexpr) : bool :=
@@ -245,13 +249,18 @@ Fixpoint frag_e (e : xexpr) : bool :=
   | XNumUnsigned n t => lit_u_ok n t
   | XNumSigned z t => lit_s_ok z t
   | XArrayLiteral es | XTupleLiteral es => forallb frag_e es
-  | XArrayRepeatLiteral e _ | XTupleAccess e _ | XUnaryOp _ e => frag_e e
+  | XArrayRepeatLiteral e _ | XTupleAccess e _ | XUnaryOp _ e | XStructAccess e _ => frag_e e
+  | XEnumLiteral _ _ None => true
+  | XEnumLiteral _ _ (Some es) => forallb frag_e es
   | XArrayAccess a i => frag_e a && frag_e i
   | XOp _ l r => frag_e l && frag_e r
   | XBlock b => forallb frag_s b
   | XIf c a b => frag_e c && frag_e a && frag_e b
   | XCast ty e => scalar_uty ty && frag_e e
   | XRange _ _ t => negb (unsigned_eqb t UnspecifiedU)
+  | XFnCall _ args => forallb frag_e args
+  | XStructLiteral _ fields => forallb (fun nf => frag_e (snd nf)) fields
+  | XMatch e arms => frag_e e && forallb (fun pa => frag_p (fst pa) && frag_e (snd pa)) arms
   | _ => false
   end
 with frag_s (s : xstmt) : bool :=
@@ -263,7 +272,7 @@ with frag_s (s : xstmt) : bool :=
   | XSExpr e => frag_e e
   end
 with frag_a (a : xaccessor) : bool :=
-  match a with XAArray i => frag_e i | XATuple _ => true | XAStruct _ => false end.
+  match a with XAArray i => frag_e i | XATuple _ => true | XAStruct _ => true end.
 
 (* types written in the program: no Unspecified number type, no named / const-sized type *)
 Fixpoint conc_uty (t : utype) : bool :=
@@ -273,6 +282,7 @@ Fixpoint conc_uty (t : utype) : bool :=
   | UTSigned s => negb (signed_eqb s UnspecifiedS)
   | UTTuple ts => forallb conc_uty ts
   | UTArray e _ => conc_uty e
+  | UTNamed _ => true
   | _ => false
   end.
 
@@ -298,6 +308,7 @@ Proof.
   - inv_all. reflexivity.
   - inv_all. destruct t; try discriminate Hc; reflexivity.
   - inv_all. destruct t; try discriminate Hc; reflexivity.
+  - destruct (memL s sn); [inv_all; reflexivity|]. destruct (memL s en); inv_all. reflexivity.
   - apply cbind_ok in HH. destruct HH as [ts' [Hts HH]]. inversion HH; subst; clear HH. cbn [conc_uty conc_ty] in *.
     revert ts' Hts Hc. induction H as [|x xs Hx Hxs IH]; intros ts' Hts Hc.
     + inv_all. reflexivity.
@@ -308,19 +319,268 @@ Proof.
 Qed.
 
 Definition frag_fn (fd : ufndef) : bool :=
-  forallb (fun p => conc_uty (upa_ty p)) (uf_params fd) && forallb frag_s (uf_body fd).
+  forallb (fun p => conc_uty (upa_ty p)) (uf_params fd) && conc_uty (uf_ty fd) && forallb frag_s (uf_body fd).
 
+
+Ltac destr_tuples := repeat match goal with x : (_ * _)%type |- _ => destruct x end.
+Ltac inv_all' := repeat (progress (inv_all; destr_tuples; cbn [fst snd] in * )).
+
+
+Section TypedRel.
+Variable intern : list N -> N.
+Variable D : defs.
+Notation check_expr := (check_expr intern).
+Notation check_stmt := (check_stmt intern).
+Notation check_stmts := (check_stmts intern).
+Notation check_block := (check_block intern).
+Notation check_fn := (check_fn intern).
+
+(* a property of the entries of `typed` that holds for whatever a successful function check
+   inserts is an invariant of the whole checker *)
+Variable K : Type.
+Variable I : K -> list (list N * tfndef) -> Prop.
+Variable Bd : nat.
+Hypothesis I_ins : forall f st ufd r id k, (f < Bd)%nat -> I k (st_typed st) ->
+  find (fun d => list_eqb (uf_name d) id) (d_fns D) = Some ufd ->
+  check_fn f D st ufd = COk r -> I k (st_typed (snd r)) -> I k ((id, fst r) :: st_typed (snd r)).
+
+Definition Rb (st st' : cstate) : Prop := forall k, I k (st_typed st) -> I k (st_typed st').
+
+Lemma R_reflr st : Rb st st. Proof. unfold Rb; auto. Qed.
+Lemma R_transr a b c : Rb a b -> Rb b c -> Rb a c. Proof. unfold Rb; auto. Qed.
+
+Lemma mapM_st_Rr {A B} (g : cstate -> A -> cres (B * cstate)) :
+  (forall st x r, g st x = COk r -> Rb st (snd r)) ->
+  forall l st r, mapM_st g st l = COk r -> Rb st (snd r).
+Proof.
+  intros Hg. induction l as [|x l IH]; intros st r H; cbn [mapM_st] in H; inv_all; [apply R_reflr|].
+  cbn [snd]. eapply R_transr; [eapply Hg; eauto|eapply IH; eauto].
+Qed.
+
+Lemma accs_loop_Rr ce :
+  (forall st x r, ce st x = COk r -> Rb st (snd r)) ->
+  forall accs st t r, accs_loop ce D st t accs = COk r -> Rb st (snd r).
+Proof.
+  intros Hce. induction accs as [|a accs IH]; intros st t r H; cbn [accs_loop] in H; [inv_all; apply R_reflr|].
+  apply cbind_ok in H. destruct H as [[[ta t'] st'] [H1 H2]]. cbv beta iota in H2.
+  apply cbind_ok in H2. destruct H2 as [[[tas tf] st''] [H2 H3]]. cbv beta iota in H3. inv_all. cbn [snd].
+  apply IH in H2. cbn [snd] in H2. eapply R_transr; [|exact H2]. clear H2 IH.
+  destruct a.
+  - inv_all'. match goal with H : ce _ _ = _ |- _ => apply Hce in H; exact H end.
+  - inv_all'. destruct (nthN _ _); inv_all. apply R_reflr.
+  - inv_all'. destruct (assocL _ (d_structs D)); [|discriminate]. destruct (assocL _ _); inv_all. apply R_reflr.
+Qed.
+
+Lemma struct_lit_loop_Rr ce f sd :
+  (forall st x r, ce st x = COk r -> Rb st (snd r)) ->
+  forall fields seen st r, struct_lit_loop ce f sd seen st fields = COk r -> Rb st (snd r).
+Proof.
+  intros Hce. induction fields as [|[fname fv] fields IH]; intros seen st r H; cbn [struct_lit_loop] in H; inv_all; [apply R_reflr|].
+  destruct (assocL fname sd); [|discriminate]. inv_all. cbn [snd].
+  eapply R_transr; [eapply Hce; eauto|eapply IH; eauto].
+Qed.
+
+Ltac refold H :=
+  fold (Infer.check_expr intern) (Infer.check_stmts intern) (Infer.check_block intern)
+       (Infer.check_fn intern) (Infer.check_stmt intern) in H.
+
+Ltac use_Rr IHe IHss IHb IHs IHf := repeat match goal with
+  | H : Infer.check_expr _ _ _ _ _ = COk _ |- _ => apply IHe in H
+  | H : Infer.check_stmts _ _ _ _ _ = COk _ |- _ => apply IHss in H
+  | H : Infer.check_block _ _ _ _ _ = COk _ |- _ => apply IHb in H
+  | H : Infer.check_fn _ _ _ _ _ = COk _ |- _ => apply IHf in H
+  | H : mapM_st (Infer.check_expr _ _ _) _ _ = COk _ |- _ => apply (mapM_st_Rr _ IHe) in H
+  | H : mapM_st (Infer.check_stmt _ _ _) _ _ = COk _ |- _ => apply (mapM_st_Rr _ IHs) in H
+  | H : accs_loop _ _ _ _ _ = COk _ |- _ => apply (accs_loop_Rr _ IHe) in H
+  | H : struct_lit_loop _ _ _ _ _ _ = COk _ |- _ => apply (struct_lit_loop_Rr _ _ _ IHe) in H
+  end.
+
+Ltac finRr := unfold Rb in *; cbn [snd fst st_typed with_env] in *; eauto 12.
+
+Theorem check_typed_rel f : (f <= Bd)%nat ->
+  (forall st e r, check_expr f D st e = COk r -> Rb st (snd r)) /\
+  (forall st b r, check_stmts f D st b = COk r -> Rb st (snd r)) /\
+  (forall st b r, check_block f D st b = COk r -> Rb st (snd r)) /\
+  (forall st s r, check_stmt f D st s = COk r -> Rb st (snd r)) /\
+  (forall st fd r, check_fn f D st fd = COk r -> Rb st (snd r)).
+Proof.
+  induction f as [|f IH]; intro HfB.
+  { repeat split; intros; discriminate. }
+  destruct (IH ltac:(lia)) as (IHe & IHss & IHb & IHs & IHf).
+  split; [|split; [|split; [|split]]].
+  - intros st e r H. destruct e; cbn [Infer.check_expr] in H; refold H.
+    + inv_all; apply R_reflr.
+    + inv_all; apply R_reflr.
+    + inv_all; apply R_reflr.
+    + inv_all; apply R_reflr.
+    + destruct (env_get (st_env st) s) as [[? ?]|]; [inv_all; apply R_reflr|].
+      destruct (assocL s (d_consts D)); inv_all; apply R_reflr.
+    + inv_all. destruct (fst a) eqn:E; [discriminate|]. inv_all. use_Rr IHe IHss IHb IHs IHf. finRr.
+    + inv_all. use_Rr IHe IHss IHb IHs IHf. finRr.
+    + discriminate.
+    + inv_all. use_Rr IHe IHss IHb IHs IHf. finRr.
+    + inv_all. use_Rr IHe IHss IHb IHs IHf. finRr.
+    + inv_all. destruct (nthN _ _); inv_all. use_Rr IHe IHss IHb IHs IHf. finRr.
+    + inv_all. destruct (assocL _ (d_structs D)); [|discriminate]. destruct (assocL _ _); inv_all. use_Rr IHe IHss IHb IHs IHf. finRr.
+    + destruct (assocL name (d_structs D)); [|discriminate]. inv_all. use_Rr IHe IHss IHb IHs IHf. finRr.
+    + destruct (assocL e (d_enums D)) as [ed|]; [|discriminate]. destruct (assocL v ed) as [[?|]|]; try discriminate;
+        destruct args; try discriminate; inv_all; use_Rr IHe IHss IHb IHs IHf; finRr.
+    + (* match *)
+      inv_all. destruct (ty_of (fst a)) eqn:Ety; try discriminate; inv_all;
+      (destruct (fst a0) as [|[? ?] ?] eqn:E0; [discriminate|]; inv_all; cbn [snd];
+       match goal with H1 : mapM_st _ _ _ = COk ?a0 |- Rb _ (snd ?a0) =>
+         apply mapM_st_Rr in H1;
+         [use_Rr IHe IHss IHb IHs IHf; finRr
+         |intros st0 pc r0 H0; inv_all; use_Rr IHe IHss IHb IHs IHf; finRr] end).
+    + destruct o; inv_all; use_Rr IHe IHss IHb IHs IHf; finRr.
+    + inv_all. destruct o; inv_all;
+        try (match goal with x : texpr * texpr * cty |- _ => destruct x as [[? ?] ?] end; inv_all);
+        try (destruct (ty_of (fst a)); try discriminate; destruct (ty_of (fst a0)); try discriminate; inv_all);
+        use_Rr IHe IHss IHb IHs IHf; finRr.
+    + apply cbind_ok in H. destruct H as [[[body ty] st'] [H1 H]]. cbv beta iota in H. inv_all.
+      use_Rr IHe IHss IHb IHs IHf. finRr.
+    + (* call *)
+      apply cbind_ok in H. destruct H as [st1 [H1 H]]. cbv beta in H.
+      assert (Hst1 : Rb st st1).
+      { destruct (negb _) in H1; [|inv_all; apply R_reflr].
+        destruct (find _ (d_fns D)) eqn:Ef; [|inv_all; apply R_reflr].
+        apply cbind_ok in H1. destruct H1 as [[fd1 st2] [H1 H2]]. cbv beta in H2. inv_all.
+        pose proof H1 as H1c. apply IHf in H1. unfold Rb in *. cbn [snd fst st_typed] in *.
+        intros k H0. eapply (I_ins f _ _ _ _ k ltac:(lia) H0 Ef H1c). cbn [snd]. auto. }
+      clear H1.
+      destruct (assocL f0 (st_typed st1)); [|discriminate].
+      destruct (env_get (st_env st1) f0); [discriminate|]. inv_all. use_Rr IHe IHss IHb IHs IHf. finRr.
+    + discriminate.
+    + inv_all. destruct a3 as [[? ?] ?]. inv_all. use_Rr IHe IHss IHb IHs IHf. finRr.
+    + inv_all. use_Rr IHe IHss IHb IHs IHf. finRr.
+    + inv_all. apply R_reflr.
+  - intros st b r H. cbn [Infer.check_stmts] in H. refold H. use_Rr IHe IHss IHb IHs IHf. exact H.
+  - intros st b r H. cbn [Infer.check_block] in H. refold H. inv_all. use_Rr IHe IHss IHb IHs IHf. finRr.
+  - intros st s r H. destruct s; cbn [Infer.check_stmt] in H; refold H.
+    + inv_all. use_Rr IHe IHss IHb IHs IHf. finRr.
+    + inv_all. use_Rr IHe IHss IHb IHs IHf. finRr.
+    + destruct (env_get (st_env st) x) as [[t [|]]|]; try discriminate.
+      apply cbind_ok in H. destruct H as [[[tas t'] st1] [H1 H]]. cbv beta iota in H. inv_all.
+      use_Rr IHe IHss IHb IHs IHf. finRr.
+    + inv_all. use_Rr IHe IHss IHb IHs IHf. finRr.
+    + inv_all. use_Rr IHe IHss IHb IHs IHf. finRr.
+  - intros st fd r H. cbn [Infer.check_fn] in H. refold H. inv_all.
+    destruct a0 as [[body ?] st1]. inv_all. use_Rr IHe IHss IHb IHs IHf. finRr.
+Qed.
+
+End TypedRel.
+
+(* ------------------------------------------------------------------ the signature of a typed function *)
+
+(* the parameter list UntypedFnDef::type_check builds: a function of the definition alone *)
+Fixpoint sig_params (D : defs) (ps : list uparam) : cres (list (bool * list N * cty)) :=
+  match ps with
+  | [] => COk []
+  | p :: r => do ty <- concrete_of D (upa_ty p); do r' <- sig_params D r; COk ((upa_mut p, upa_name p, ty) :: r')
+  end.
+
+Lemma params_loop_sig D : forall ps seen g tps g',
+  (fix go (seen : list (list N)) (ps : list uparam) (g : cenv)
+     : cres (list (bool * list N * cty) * cenv) :=
+     match ps with
+     | [] => COk ([], g)
+     | p :: r =>
+         if memL (upa_name p) seen then CErr E_DuplicateFnParam else
+         do ty <- concrete_of D (upa_ty p);
+         do r2 <- go (upa_name p :: seen) r (env_let g (upa_name p) ty (upa_mut p));
+         COk ((upa_mut p, upa_name p, ty) :: fst r2, snd r2)
+     end) seen ps g = COk (tps, g') -> sig_params D ps = COk tps.
+Proof.
+  induction ps as [|p ps IH]; intros seen g tps g' H.
+  - inversion H; reflexivity.
+  - destruct (memL (upa_name p) seen); [discriminate|].
+    apply cbind_ok in H. destruct H as [ty [Hty H]]. apply cbind_ok in H. destruct H as [[tps2 g2] [Hgo H]].
+    cbn [fst snd] in H. inversion H; subst; clear H. cbn [sig_params]. rewrite Hty. cbn [cbind].
+    rewrite (IH _ _ _ _ Hgo). reflexivity.
+Qed.
+
+Lemma check_fn_sig intern f D st fd tfd st' :
+  check_fn intern f D st fd = COk (tfd, st') ->
+  sig_params D (uf_params fd) = COk (tf_params tfd) /\ concrete_of D (uf_ty fd) = COk (tf_ty tfd) /\
+  tf_name tfd = uf_name fd.
+Proof.
+  destruct f as [|f]; [discriminate|]. cbn [check_fn]. intro H.
+  destruct (memL (uf_name fd) (st_checking st)); [discriminate|].
+  apply cbind_ok in H. destruct H as [[tps g1] [Hps H]]. cbn [fst snd] in H.
+  apply cbind_ok in H. destruct H as [[[body ty] st1] [Hblk H]]. cbv beta iota zeta in H.
+  apply cbind_ok in H. destruct H as [ret_ty [Hret H]]. apply cbind_ok in H. destruct H as [body' [Hlast H]].
+  inversion H; subst; clear H. cbn [tf_params tf_ty tf_name].
+  split; [eapply params_loop_sig; exact Hps|]. split; [exact Hret|reflexivity].
+Qed.
+
+(* what every entry of `typed` satisfies: it has the static signature of the function of its name *)
+Definition Qs (D : defs) (nd : list N * tfndef) : Prop :=
+  exists ufd, find (fun d => list_eqb (uf_name d) (fst nd)) (d_fns D) = Some ufd /\
+    sig_params D (uf_params ufd) = COk (tf_params (snd nd)) /\
+    concrete_of D (uf_ty ufd) = COk (tf_ty (snd nd)) /\ tf_name (snd nd) = fst nd.
+
+Lemma Qs_ins intern D f st ufd r id :
+  find (fun d => list_eqb (uf_name d) id) (d_fns D) = Some ufd ->
+  check_fn intern f D st ufd = COk r -> Qs D (id, fst r).
+Proof.
+  intros Hf Hc. destruct r as [tfd st']. destruct (check_fn_sig _ _ _ _ _ _ _ Hc) as [Hp [Hr Hn]].
+  exists ufd. cbn [fst snd]. repeat split; try assumption.
+  rewrite Hn. apply find_some in Hf. destruct Hf as [_ Hf]. apply list_eqb_eq in Hf. exact Hf.
+Qed.
+
+Theorem Qs_pres intern D f :
+  (forall st e r, check_expr intern f D st e = COk r -> Forall (Qs D) (st_typed st) -> Forall (Qs D) (st_typed (snd r))) /\
+  (forall st b r, check_stmts intern f D st b = COk r -> Forall (Qs D) (st_typed st) -> Forall (Qs D) (st_typed (snd r))) /\
+  (forall st b r, check_block intern f D st b = COk r -> Forall (Qs D) (st_typed st) -> Forall (Qs D) (st_typed (snd r))) /\
+  (forall st s r, check_stmt intern f D st s = COk r -> Forall (Qs D) (st_typed st) -> Forall (Qs D) (st_typed (snd r))) /\
+  (forall st fd r, check_fn intern f D st fd = COk r -> Forall (Qs D) (st_typed st) -> Forall (Qs D) (st_typed (snd r))).
+Proof.
+  pose proof (check_typed_rel intern D unit (fun _ l => Forall (Qs D) l) f) as H.
+  assert (Hins : forall f0 st ufd r id (k : unit), (f0 < f)%nat -> Forall (Qs D) (st_typed st) ->
+            find (fun d => list_eqb (uf_name d) id) (d_fns D) = Some ufd ->
+            check_fn intern f0 D st ufd = COk r -> Forall (Qs D) (st_typed (snd r)) ->
+            Forall (Qs D) ((id, fst r) :: st_typed (snd r))).
+  { intros f0 st ufd r id _ _ _ Hf Hc HQ. constructor; [eapply Qs_ins; eauto|exact HQ]. }
+  destruct (H Hins f (le_n f)) as (H1 & H2 & H3 & H4 & H5). unfold Rb in *.
+  repeat split; intros; [eapply (H1 _ _ _ H0 tt)|eapply (H2 _ _ _ H0 tt)|eapply (H3 _ _ _ H0 tt)
+                        |eapply (H4 _ _ _ H0 tt)|eapply (H5 _ _ _ H0 tt)]; assumption.
+Qed.
 Section Sound.
 Variable intern : list N -> N.
 Hypothesis intern_inj : forall a b, intern a = intern b -> a = b.
 Variable en : list (list N * list (list N * option (list cty))).
 Variable P' : Ast.program.
 Variable D : defs.
-Hypothesis D_consts : d_consts D = [].
+Variable gc : Wt.tenv.      (* the consts environment of the re-checker (Wt.consts_tenv P') *)
 Notation xe := (export_expr intern en).
 Notation xs := (export_stmt intern en).
 Notation xa := (export_accessor intern en).
 Notation xt := (export_ty intern).
+
+Definition xparams (tps : list (bool * list N * cty)) : list (N * Ast.ty) :=
+  map (fun p => (intern (snd (fst p)), xt (snd p))) tps.
+
+(* every function of the program is in the fragment, and the re-checked program P' lists every
+   function with its static signature *)
+Hypothesis en_eq : id (en = d_enums D).
+Definition xfields (def : list (list N * cty)) : list (N * Ast.ty) := map (fun ft => (intern (fst ft), xt (snd ft))) def.
+Definition xvariants (vs : list (list N * option (list cty))) : list (list Ast.ty) :=
+  map (fun v => match snd v with Some ts => map xt ts | None => [] end) vs.
+(* P' lists the struct / enum definitions of D (interned); their component types are concrete *)
+Hypothesis P_structs : forall name def, assocL name (d_structs D) = Some def ->
+  Ast.assocN (intern name) (Ast.p_structs P') = Some (xfields def).
+Hypothesis P_enums : forall name vs, assocL name (d_enums D) = Some vs ->
+  Ast.assocN (intern name) (Ast.p_enums P') = Some (xvariants vs).
+Hypothesis D_conc_s : forall name def f t, assocL name (d_structs D) = Some def -> assocL f def = Some t -> conc_ty t = true.
+Hypothesis D_nodup_s : forall name def, assocL name (d_structs D) = Some def -> NoDup (map fst def).
+Hypothesis D_conc_c : forall x t, assocL x (d_consts D) = Some t -> conc_ty t = true.
+Hypothesis gc_consts : forall x t, assocL x (d_consts D) = Some t -> exists m', Wt.tlookup gc (intern x) = Some (xt t, m').
+Hypothesis D_conc_e : forall name vs v ts, assocL name (d_enums D) = Some vs -> assocL v vs = Some (Some ts) -> forallb conc_ty ts = true.
+Hypothesis D_frag : forall ufd, In ufd (d_fns D) -> frag_fn ufd = true.
+Hypothesis P_sig : forall id ufd tps rty,
+  find (fun d => list_eqb (uf_name d) id) (d_fns D) = Some ufd ->
+  sig_params D (uf_params ufd) = COk tps -> concrete_of D (uf_ty ufd) = COk rty ->
+  exists d, Ast.find_fn P' (intern id) = Some d /\ Ast.fn_params d = xparams tps /\ Ast.fn_ret d = xt rty.
 
 Lemma e_ty_xe e : Ast.e_ty (xe e) = xt (ty_of e).
 Proof. destruct e; reflexivity. Qed.
@@ -340,8 +600,11 @@ Qed.
 (* environments *)
 Definition env_ok (g : cenv) : Prop := forall x t m, env_get g x = Some (t, m) -> conc_ty t = true.
 Definition env_rel (g : cenv) (G : Wt.tenv) : Prop :=
-  forall x t m, env_get g x = Some (t, m) ->
-  exists m', Wt.tlookup G (intern x) = Some (xt t, m') /\ (m = true -> m' = true).
+  (forall x t m, env_get g x = Some (t, m) ->
+     exists m', Wt.tlookup G (intern x) = Some (xt t, m') /\ (m = true -> m' = true)) /\
+  (* a name that no scope binds is looked up among the consts *)
+  (forall x t, env_get g x = None -> assocL x (d_consts D) = Some t ->
+     exists m', Wt.tlookup G (intern x) = Some (xt t, m')).
 
 Lemma env_get_let g x t m y :
   env_get (env_let g x t m) y = if list_eqb y x then Some (t, m) else env_get g y.
@@ -351,14 +614,23 @@ Lemma tlookup_tbind G x t m y :
   Wt.tlookup (Wt.tbind G x t m) y = if y =? x then Some (t, m) else Wt.tlookup G y.
 Proof. destruct G as [|s r]; cbn [Wt.tbind Wt.tlookup Ast.assocN]; destruct (y =? x); reflexivity. Qed.
 
-Lemma env_rel_let g G x t m : env_rel g G -> env_rel (env_let g x t m) (Wt.tbind G (intern x) (xt t) m).
+Lemma env_rel_let_mut g G x t m m' : (m = true -> m' = true) ->
+  env_rel g G -> env_rel (env_let g x t m) (Wt.tbind G (intern x) (xt t) m').
 Proof.
-  intros H y t' m' Hy. rewrite env_get_let in Hy. rewrite tlookup_tbind.
-  destruct (list_eqb y x) eqn:E.
-  - apply list_eqb_eq in E. subst y. rewrite N.eqb_refl. inversion Hy; subst. eauto.
-  - destruct (N.eqb_spec (intern y) (intern x)) as [Heq|Hne]; [|apply H; assumption].
+  intros Hm [H1 H2]. split.
+  - intros y t' m0 Hy. rewrite env_get_let in Hy. rewrite tlookup_tbind.
+    destruct (list_eqb y x) eqn:E.
+    + apply list_eqb_eq in E. subst y. rewrite N.eqb_refl. inversion Hy; subst. eauto.
+    + destruct (N.eqb_spec (intern y) (intern x)) as [Heq|Hne]; [|apply H1; assumption].
+      apply intern_inj in Heq. subst y. rewrite list_eqb_refl in E. discriminate.
+  - intros y t' Hy Hc. rewrite env_get_let in Hy. rewrite tlookup_tbind.
+    destruct (list_eqb y x) eqn:E; [discriminate|].
+    destruct (N.eqb_spec (intern y) (intern x)) as [Heq|Hne]; [|apply H2; assumption].
     apply intern_inj in Heq. subst y. rewrite list_eqb_refl in E. discriminate.
 Qed.
+
+Lemma env_rel_let g G x t m : env_rel g G -> env_rel (env_let g x t m) (Wt.tbind G (intern x) (xt t) m).
+Proof. apply env_rel_let_mut. auto. Qed.
 
 Lemma env_ok_let g x t m : env_ok g -> conc_ty t = true -> env_ok (env_let g x t m).
 Proof.
@@ -366,7 +638,11 @@ Proof.
 Qed.
 
 Lemma env_rel_push g G : env_rel g G -> env_rel (env_push g) ([] :: G).
-Proof. intros H x t m Hx. cbn in Hx. apply H in Hx. cbn [Wt.tlookup Ast.assocN]. exact Hx. Qed.
+Proof.
+  intros [H1 H2]. split.
+  - intros x t m Hx. cbn in Hx. apply H1 in Hx. cbn [Wt.tlookup Ast.assocN]. exact Hx.
+  - intros x t Hx Hc. cbn in Hx. cbn [Wt.tlookup Ast.assocN]. eauto.
+Qed.
 
 Lemma env_ok_push g : env_ok g -> env_ok (env_push g).
 Proof. intros H x t m Hx. cbn in Hx. eauto. Qed.
@@ -418,8 +694,6 @@ Qed.
 
 Notation xp := (export_pattern intern en).
 
-Ltac destr_tuples := repeat match goal with x : (_ * _)%type |- _ => destruct x end.
-Ltac inv_all' := repeat (progress (inv_all; destr_tuples; cbn [fst snd] in * )).
 Ltac refold H :=
   fold (Infer.check_expr intern) (Infer.check_stmts intern) (Infer.check_block intern)
        (Infer.check_fn intern) (Infer.check_stmt intern) in H.
@@ -441,6 +715,8 @@ Proof. reflexivity. Qed.
 Lemma xa_arr t i : xa (TAArray t i) = Ast.AIdx (xt t) (xe i).
 Proof. reflexivity. Qed.
 Lemma xa_tup t i : xa (TATuple t i) = Ast.ATup (xt t) i.
+Proof. reflexivity. Qed.
+Lemma xa_fld t fld : xa (TAStruct t fld) = Ast.AFld (xt t) (intern fld).
 Proof. reflexivity. Qed.
 Lemma xp_id s t : xp (TP (TPIdentifier s) t) = Ast.Pat (Ast.PId (intern s)) m0 (xt t).
 Proof. reflexivity. Qed.
@@ -539,6 +815,57 @@ Proof. reflexivity. Qed.
 Lemma tbind_all_app G a b m : Wt.tbind_all G (a ++ b) m = Wt.tbind_all (Wt.tbind_all G a m) b m.
 Proof. unfold Wt.tbind_all. apply fold_left_app. Qed.
 
+
+Lemma index_of_shift {A} (k : list N) (l : list (list N * A)) : forall i, index_of k l i = i + index_of k l 0.
+Proof.
+  induction l as [|[k' v] l IH]; intro i; cbn [index_of]; [lia|].
+  destruct (list_eqb k k'); [lia|]. rewrite (IH (i + 1)), (IH (0 + 1)). lia.
+Qed.
+
+Lemma index_of_nth {A B} (g : list N * A -> B) (k : list N) : forall (l : list (list N * A)) p,
+  assocL k l = Some p -> exists k', nthN (map g l) (index_of k l 0) = Some (g (k', p)).
+Proof.
+  induction l as [|[k' v] l IH]; intros p H; [discriminate|]. cbn [assocL index_of] in *.
+  destruct (list_eqb k k').
+  - inversion H; subst. exists k'. reflexivity.
+  - destruct (IH _ H) as [k2 Hk2]. exists k2. rewrite index_of_shift. rewrite nthN_spec in *.
+    cbn [map]. replace (N.to_nat (0 + 1 + index_of k l 0)) with (S (N.to_nat (index_of k l 0))) by lia. exact Hk2.
+Qed.
+
+Lemma variant_nth e v ed p : assocL e (d_enums D) = Some ed -> assocL v ed = Some p ->
+  nthN (xvariants ed) (variant_index en e v) = Some (match p with Some ts => map xt ts | None => [] end).
+Proof.
+  intros He Hv. assert (Hen : assocL e en = Some ed) by (pose proof en_eq as Hq; unfold id in Hq; rewrite Hq; exact He).
+  unfold variant_index. rewrite Hen.
+  destruct (index_of_nth (fun v0 : list N * option (list cty) => match snd v0 with Some ts => map xt ts | None => [] end) _ _ _ Hv) as [k' Hn].
+  unfold xvariants. rewrite Hn. reflexivity.
+Qed.
+
+Lemma pat_range_fits z ty u1 u2 : expect_num_type ty = COk u1 -> expect_pattern_num_in_range z ty = COk u2 ->
+  Wt.lit_fits (xt ty) z = true.
+Proof.
+  intros H1 H2. destruct ty as [|u|s| | | |]; try discriminate H1; cbn [expect_pattern_num_in_range] in H2.
+  - match type of H2 with (if ?c then _ else _) = _ => destruct c eqn:Ec; [discriminate|] end.
+    apply orb_false_iff in Ec. destruct Ec as [E1 E2]. apply Z.ltb_ge in E1. apply Z.ltb_ge in E2.
+    unfold Wt.lit_fits. cbn [export_ty]. apply andb_true_iff. split; [apply Z.leb_le; lia|apply Z.ltb_lt].
+    destruct u; cbn [unsigned_max ubits] in *; unfold u32_max in *.
+    + change (2 ^ Z.of_N 32)%Z with 4294967296%Z. lia.
+    + change (2 ^ Z.of_N 8)%Z with 256%Z. lia.
+    + change (2 ^ Z.of_N 16)%Z with 65536%Z. lia.
+    + change (2 ^ Z.of_N 32)%Z with 4294967296%Z. lia.
+    + change (2 ^ Z.of_N 64)%Z with 18446744073709551616%Z. lia.
+    + change (2 ^ Z.of_N 32)%Z with 4294967296%Z. lia.
+  - match type of H2 with (if ?c then _ else _) = _ => destruct c eqn:Ec; [discriminate|] end.
+    apply orb_false_iff in Ec. destruct Ec as [E1 E2]. apply Z.ltb_ge in E1. apply Z.ltb_ge in E2.
+    unfold Wt.lit_fits. cbn [export_ty]. apply andb_true_iff.
+    destruct s; cbn [signed_min signed_max sbits] in *.
+    + change (2 ^ (Z.of_N 8 - 1))%Z with 128%Z. split; [apply Z.leb_le|apply Z.ltb_lt]; lia.
+    + change (2 ^ (Z.of_N 16 - 1))%Z with 32768%Z. split; [apply Z.leb_le|apply Z.ltb_lt]; lia.
+    + change (2 ^ (Z.of_N 32 - 1))%Z with 2147483648%Z. split; [apply Z.leb_le|apply Z.ltb_lt]; lia.
+    + change (2 ^ (Z.of_N 64 - 1))%Z with 9223372036854775808%Z. split; [apply Z.leb_le|apply Z.ltb_lt]; lia.
+    + change (2 ^ (Z.of_N 32 - 1))%Z with 2147483648%Z. split; [apply Z.leb_le|apply Z.ltb_lt]; lia.
+Qed.
+
 (* ------------------------------------------------------------------ patterns *)
 
 Definition pat_ok (p : upattern) : Prop := forall g ty p' g',
@@ -573,6 +900,82 @@ Proof.
     + cbn [forallb]. intros Hc Hok. apply andb_true_iff in Hc. destruct Hc. auto.
 Qed.
 
+Lemma xp_struct n fs t : xp (TP (TPStruct n fs) t) =
+  Ast.Pat (Ast.PStruct (intern n) false (map (fun f => (intern (fst f), xp (snd f))) fs)) m0 (xt t).
+Proof. reflexivity. Qed.
+
+(* the field loop of Wt.wt_pat (PStruct) *)
+Definition wsfields (def : list (N * Ast.ty)) :=
+  fix go (fs : list (N * Ast.pattern)) : option (list (N * Ast.ty)) :=
+    match fs with
+    | [] => Some []
+    | (f, fp) :: r =>
+        match Ast.assocN f def with
+        | Some ft =>
+            if negb (Wt.ty_eqb (Ast.p_ty fp) ft) then None else
+            match Wt.wt_pat P' fp, go r with
+            | Some a, Some b => Some (a ++ b)
+            | _, _ => None
+            end
+        | None => None
+        end
+    end.
+Lemma wt_pat_struct name rest fields m n2 def :
+  Ast.assocN name (Ast.p_structs P') = Some def ->
+  Wt.wt_pat P' (Ast.Pat (Ast.PStruct name rest fields) m (Ast.TStruct n2)) =
+  if negb (name =? n2) then None else wsfields def fields.
+Proof. intro H. cbn [Wt.wt_pat]. rewrite H. reflexivity. Qed.
+
+Lemma intern_eqb a b : (intern a =? intern b) = list_eqb a b.
+Proof.
+  destruct (list_eqb a b) eqn:E.
+  - apply list_eqb_eq in E. subst. apply N.eqb_refl.
+  - apply N.eqb_neq. intro H. apply intern_inj in H. subst. rewrite list_eqb_refl in E. discriminate.
+Qed.
+
+Lemma assocN_map_intern {A B} (g : A -> B) k (l : list (list N * A)) :
+  Ast.assocN (intern k) (map (fun x => (intern (fst x), g (snd x))) l) = option_map g (assocL k l).
+Proof.
+  induction l as [|[k0 v] l IH]; [reflexivity|]. cbn [map fst snd Ast.assocN assocL]. rewrite intern_eqb.
+  destruct (list_eqb k k0); [reflexivity|exact IH].
+Qed.
+
+Lemma struct_loop_ok sd fs : Forall (fun f : list N * upattern => pat_ok (snd f)) fs ->
+  forallb (fun f : list N * upattern => frag_p (snd f)) fs = true ->
+  (forall f t, assocL f sd = Some t -> conc_ty t = true) ->
+  forall seen g r g',
+    (fix go (seen : list (list N)) (fs : list (list N * upattern)) (g : cenv)
+       : cres (list (list N * tpattern) * cenv) :=
+       match fs with
+       | [] => COk ([], g)
+       | (field_name, field_value) :: fr =>
+           if memL field_name seen then CErr E_PatternDoesNotMatchType else
+           match assocL field_name sd with
+           | Some field_type =>
+               do r1 <- check_pattern D g field_value field_type;
+               do r2 <- go (field_name :: seen) fr (snd r1);
+               COk ((field_name, fst r1) :: fst r2, snd r2)
+           | None => CErr E_UnknownStructField
+           end
+       end) seen fs g = COk (r, g') ->
+  exists bs, wsfields (xfields sd) (map (fun f : list N * tpattern => (intern (fst f), xp (snd f))) r) = Some bs /\
+    (forall G, env_rel g G -> env_rel g' (Wt.tbind_all G bs false)) /\ (env_ok g -> env_ok g').
+Proof.
+  induction 1 as [|[fname fp] fs Hq Hfs IH]; intros Hf Hcs seen g r g' H.
+  - inversion H; subst. exists []. cbn. auto.
+  - cbn [forallb snd] in Hf. apply andb_true_iff in Hf. destruct Hf as [Hf1 Hf2].
+    destruct (memL fname seen); [discriminate|]. destruct (assocL fname sd) as [ft|] eqn:Ea; [|discriminate].
+    apply cbind_ok in H. destruct H as [[p1 g1] [H1 H]]. apply cbind_ok in H. destruct H as [[r2 g2] [H2 H]].
+    cbn [fst snd] in *. inversion H; subst; clear H.
+    destruct (Hq _ _ _ _ Hf1 H1) as [Hty [bs1 [Hw1 [Hr1 Ho1]]]].
+    destruct (IH Hf2 Hcs _ _ _ _ H2) as [bs2 [Hw2 [Hr2 Ho2]]].
+    exists (bs1 ++ bs2). cbn [map wsfields fst snd]. fold (wsfields (xfields sd)).
+    unfold xfields at 1. rewrite assocN_map_intern, Ea. cbn [option_map]. rewrite Hty, xt_refl, Hw1, Hw2. cbn [negb].
+    split; [reflexivity|]. split.
+    + intros G HG. rewrite tbind_all_app. auto.
+    + intro Hok. apply Ho2. apply Ho1; [eapply Hcs; exact Ea|exact Hok].
+Qed.
+
 Lemma pat_sound : forall p, pat_ok p.
 Proof.
   induction p using upattern_ind'; intros g ty p' g' Hf HH; try discriminate Hf; cbn [check_pattern] in HH.
@@ -580,6 +983,15 @@ Proof.
     exists [(intern s, xt ty)]. split; [reflexivity|]. split.
     + intros G HG. cbn. apply env_rel_let. exact HG.
     + intros Hc Hok. apply env_ok_let; assumption.
+  - (* true *) destruct ty; try discriminate HH. inversion HH; subst. split; [reflexivity|]. exists []. cbn. auto.
+  - (* false *) destruct ty; try discriminate HH. inversion HH; subst. split; [reflexivity|]. exists []. cbn. auto.
+  - (* unsigned number *)
+    apply cbind_ok in HH. destruct HH as [u1 [H1 HH]]. apply cbind_ok in HH. destruct HH as [u2 [H2 HH]]. inversion HH; subst.
+    split; [reflexivity|]. exists []. cbn [export_pattern Wt.wt_pat]. rewrite (pat_range_fits _ _ _ _ H1 H2). cbn. auto.
+  - (* signed number *)
+    apply cbind_ok in HH. destruct HH as [u1 [H1 HH]]. apply cbind_ok in HH. destruct HH as [u2 [H2 HH]]. inversion HH; subst.
+    assert (H1' : expect_num_type ty = COk tt) by (destruct ty; try discriminate H1; reflexivity).
+    split; [reflexivity|]. exists []. cbn [export_pattern Wt.wt_pat]. rewrite (pat_range_fits _ _ _ _ H1' H2). cbn. auto.
   - (* tuple *)
     cbn [frag_p] in Hf. apply cbind_ok in HH. destruct HH as [fts [Ht HH]].
     destruct ty; try discriminate Ht. cbn [expect_tuple_type] in Ht. inv_all.
@@ -589,7 +1001,61 @@ Proof.
       destruct a as [ps2 g2]; destruct (fields_loop_ok ps H Hf fts g ps2 g2 ltac:(lia) Hl) as [bs [Hw [Hr Ho]]] end.
     cbn [fst snd]. rewrite xp_tup. cbn [Ast.p_ty export_ty]. split; [reflexivity|].
     exists bs. rewrite wt_pat_tup. split; [exact Hw|]. split; [exact Hr|]. exact Ho.
+  - (* struct *)
+    cbn [frag_p] in Hf. apply cbind_ok in HH. destruct HH as [sname [Hsn HH]].
+    destruct ty as [| | | | |sn0|]; try discriminate Hsn. cbn in Hsn. assert (sn0 = sname) by congruence. subst sn0. clear Hsn.
+    destruct (negb (list_eqb sname n)) eqn:Ene; [discriminate|]. apply negb_false_iff in Ene. apply list_eqb_eq in Ene. subst sname.
+    destruct (assocL n (d_structs D)) as [sd|] eqn:Esd; [|discriminate].
+    apply cbind_ok in HH. destruct HH as [[r g2] [Hl HH]]. cbn [fst snd] in HH.
+    match type of HH with (if ?c then _ else _) = _ => destruct c; [discriminate|] end. inversion HH; subst; clear HH.
+    destruct (struct_loop_ok sd fs H Hf (fun f0 t0 Hft => D_conc_s _ _ _ _ Esd Hft) _ _ _ _ Hl) as [bs [Hw [Hr Ho]]].
+    rewrite xp_struct. cbn [Ast.p_ty export_ty]. split; [reflexivity|]. exists bs.
+    rewrite (wt_pat_struct _ _ _ _ _ _ (P_structs _ _ Esd)), N.eqb_refl. cbn [negb].
+    split; [exact Hw|]. split; [exact Hr|]. intros _. exact Ho.
+  - (* struct, `..` *)
+    cbn [frag_p] in Hf. apply cbind_ok in HH. destruct HH as [sname [Hsn HH]].
+    destruct ty as [| | | | |sn0|]; try discriminate Hsn. cbn in Hsn. assert (sn0 = sname) by congruence. subst sn0. clear Hsn.
+    destruct (negb (list_eqb sname n)) eqn:Ene; [discriminate|]. apply negb_false_iff in Ene. apply list_eqb_eq in Ene. subst sname.
+    destruct (assocL n (d_structs D)) as [sd|] eqn:Esd; [|discriminate].
+    apply cbind_ok in HH. destruct HH as [[r g2] [Hl HH]]. cbn [fst snd] in HH.
+    match type of HH with (if ?c then _ else _) = _ => destruct c; [discriminate|] end. inversion HH; subst; clear HH.
+    destruct (struct_loop_ok sd fs H Hf (fun f0 t0 Hft => D_conc_s _ _ _ _ Esd Hft) _ _ _ _ Hl) as [bs [Hw [Hr Ho]]].
+    rewrite xp_struct. cbn [Ast.p_ty export_ty]. split; [reflexivity|]. exists bs.
+    rewrite (wt_pat_struct _ _ _ _ _ _ (P_structs _ _ Esd)), N.eqb_refl. cbn [negb].
+    split; [exact Hw|]. split; [exact Hr|]. intros _. exact Ho.
+  - (* enum unit *)
+    destruct ty as [| | | | | |en0]; try discriminate HH.
+    destruct (negb (list_eqb en0 e)) eqn:Ene; [discriminate|]. apply negb_false_iff in Ene. apply list_eqb_eq in Ene. subst en0.
+    destruct (assocL e (d_enums D)) as [ed|] eqn:Eed; [|discriminate].
+    destruct (assocL v ed) as [[pts|]|] eqn:Ev; try discriminate HH. inversion HH; subst.
+    split; [reflexivity|]. exists []. cbn [export_pattern Wt.wt_pat export_ty].
+    rewrite (P_enums _ _ Eed), N.eqb_refl. cbn [negb]. rewrite (variant_nth _ _ _ _ Eed Ev). cbn. auto.
+  - (* enum tuple *)
+    cbn [frag_p] in Hf. destruct ty as [| | | | | |en0]; try discriminate HH.
+    destruct (negb (list_eqb en0 e)) eqn:Ene; [discriminate|]. apply negb_false_iff in Ene. apply list_eqb_eq in Ene. subst en0.
+    destruct (assocL e (d_enums D)) as [ed|] eqn:Eed; [|discriminate].
+    destruct (assocL v ed) as [[pts|]|] eqn:Ev; try discriminate HH.
+    destruct (negb (lenN pts =? lenN ps)) eqn:El; [discriminate|].
+    apply negb_false_iff in El. apply N.eqb_eq in El. unfold lenN in El. apply Nat2N.inj in El.
+    apply cbind_ok in HH. destruct HH as [[ps2 g2] [Hl HH]]. cbn [fst snd] in HH. inversion HH; subst.
+    destruct (fields_loop_ok ps H Hf pts g ps2 g' ltac:(lia) Hl) as [bs [Hw [Hr Ho]]].
+    split; [reflexivity|]. exists bs. cbn [export_pattern Wt.wt_pat export_ty].
+    rewrite (P_enums _ _ Eed), N.eqb_refl. cbn [negb]. rewrite (variant_nth _ _ _ _ Eed Ev).
+    split; [exact Hw|]. split; [exact Hr|]. intros _ Hok. apply Ho; [|exact Hok]. eapply D_conc_e; eauto.
+  - (* unsigned range *)
+    apply cbind_ok in HH. destruct HH as [u1 [H1 HH]]. apply cbind_ok in HH. destruct HH as [u2 [H2 HH]].
+    apply cbind_ok in HH. destruct HH as [u3 [H3 HH]]. inversion HH; subst.
+    split; [reflexivity|]. exists []. cbn [export_pattern Wt.wt_pat].
+    rewrite (pat_range_fits _ _ _ _ H1 H2), (pat_range_fits _ _ _ _ H1 H3). cbn. auto.
+  - (* signed range *)
+    apply cbind_ok in HH. destruct HH as [u1 [H1 HH]]. apply cbind_ok in HH. destruct HH as [u2 [H2 HH]].
+    apply cbind_ok in HH. destruct HH as [u3 [H3 HH]]. inversion HH; subst.
+    assert (H1' : expect_num_type ty = COk tt) by (destruct ty; try discriminate H1; reflexivity).
+    split; [reflexivity|]. exists []. cbn [export_pattern Wt.wt_pat].
+    rewrite (pat_range_fits _ _ _ _ H1' H2), (pat_range_fits _ _ _ _ H1' H3). cbn. auto.
 Qed.
+
+
 
 (* ------------------------------------------------------------------ the statement loop of Wt.wt_block *)
 
@@ -605,7 +1071,10 @@ Proof. reflexivity. Qed.
 Definition sty (s : tstmt) : Ast.ty := match s with TSExpr e => xt (ty_of e) | _ => Wt.unit_ty end.
 
 (* what the checker state must satisfy *)
-Definition good (st : cstate) : Prop := env_ok (st_env st).
+Definition good (st : cstate) : Prop := env_ok (st_env st) /\ Forall (Qs D) (st_typed st).
+
+Lemma good_with_env st g : good st -> env_ok g -> good (with_env st g).
+Proof. intros [_ H] Hg. split; [exact Hg|exact H]. Qed.
 
 Definition E (f : nat) : Prop := forall e st e' st' G F,
   frag_e e = true -> check_expr intern f D st e = COk (e', st') ->
@@ -629,7 +1098,10 @@ Definition Ss (f : nat) : Prop := forall b st b' st' G F,
   forallb conc_s b' = true /\ exists t, Wt.wt_block F P' G (map xs b') = Some t.
 
 Lemma good_e f st e r : check_expr intern f D st e = COk r -> good st -> good (snd r).
-Proof. intros H Hg. unfold good. rewrite (proj1 (check_env intern f D) _ _ _ H). exact Hg. Qed.
+Proof.
+  intros H [Hg1 Hg2]. split; [rewrite (proj1 (check_env intern f D) _ _ _ H); exact Hg1|].
+  exact (proj1 (Qs_pres intern D f) _ _ _ H Hg2).
+Qed.
 
 Lemma fold_sty_last : forall b l,
   fold_left (fun _ s => sty s) b l = match last (map Some b) None with Some s => sty s | None => l end.
@@ -738,14 +1210,14 @@ Lemma accs_ok f F : E f -> (f <= F)%nat -> forall accs st t tas t' st' G,
   forallb frag_a accs = true ->
   accs_loop (check_expr intern f D) D st t accs = COk (tas, t', st') ->
   good st -> env_rel (st_env st) G -> conc_ty t = true ->
-  ago F G (map xa tas) (xt t) = Some (xt t') /\ conc_ty t' = true /\ st_env st' = st_env st.
+  ago F G (map xa tas) (xt t) = Some (xt t') /\ conc_ty t' = true /\ st_env st' = st_env st /\ good st'.
 Proof.
   intros HE HF. induction accs as [|a accs IH]; intros st t tas t' st' G Hf H Hok Hrel Hct; cbn [accs_loop] in H.
-  - inv_all. repeat split; auto.
+  - inv_all. repeat split; auto; apply Hok.
   - cbn [forallb] in Hf. apply andb_true_iff in Hf. destruct Hf as [Hf1 Hf2].
     apply cbind_ok in H. destruct H as [[[ta t1] st1] [H1 H]]. cbv beta iota in H.
     apply cbind_ok in H. destruct H as [[[tas2 tf] st2] [H2 H]]. cbv beta iota in H. inv_all.
-    destruct a; try discriminate Hf1; cbn [frag_a] in Hf1.
+    destruct a; cbn [frag_a] in Hf1.
     + (* [i] *)
       apply cbind_ok in H1. destruct H1 as [el [Hel H1]]. destruct t as [| | |el0 n| | |]; try discriminate Hel. cbn in Hel. assert (el0 = el) by congruence. subst el0. clear Hel.
       apply cbind_ok in H1. destruct H1 as [[i1 sti] [Hi H1]]. cbn [fst snd] in H1.
@@ -755,19 +1227,265 @@ Proof.
       pose proof (proj1 (check_env intern f D) _ _ _ Hi) as Henv. cbn [snd] in Henv.
       pose proof (good_e _ _ _ _ Hi Hok) as Hok2. cbn [snd] in Hok2. rewrite <- Henv in Hrel.
       cbn [conc_ty] in Hct.
-      destruct (IH _ _ _ _ _ _ Hf2 H2 Hok2 Hrel Hct) as [Hago [Hc' He]].
+      destruct (IH _ _ _ _ _ _ Hf2 H2 Hok2 Hrel Hct) as [Hago [Hc' [He Hgd]]].
       cbn [map ago]. fold (ago F G). rewrite xa_arr. cbn [export_ty]. fold (xt (CArray el n)).
       rewrite e_ty_xe, Ety, Hwi. cbn [export_ty Wt.is_unsigned]. 
       change (Ast.TArr (xt el) n) with (xt (CArray el n)). rewrite xt_refl. cbn [andb].
-      split; [exact Hago|]. split; [exact Hc'|congruence].
+      split; [exact Hago|]. split; [exact Hc'|]. split; [congruence|exact Hgd].
     + (* .i *)
       apply cbind_ok in H1. destruct H1 as [vts [Hvt H1]]. destruct t as [| | | |vts0| |]; try discriminate Hvt. cbn in Hvt. assert (vts0 = vts) by congruence. subst vts0. clear Hvt.
       destruct (nthN vts index) as [ti|] eqn:En; [|discriminate]. inversion H1; subst ta t1 st1; clear H1.
       cbn [conc_ty] in Hct. pose proof (conc_nth _ _ _ Hct En) as Hcti.
-      destruct (IH _ _ _ _ _ _ Hf2 H2 Hok Hrel Hcti) as [Hago [Hc' He]].
+      destruct (IH _ _ _ _ _ _ Hf2 H2 Hok Hrel Hcti) as [Hago [Hc' [He Hgd]]].
       cbn [map ago]. fold (ago F G). rewrite xa_tup. cbn [export_ty].
       change (Ast.TTup (map xt vts)) with (xt (CTuple vts)). rewrite xt_refl. cbn [export_ty].
       rewrite nthN_map, En. cbn [option_map]. auto.
+    + (* .field *)
+      apply cbind_ok in H1. destruct H1 as [sname [Hsn H1]]. destruct t as [| | | | |sn0|]; try discriminate Hsn. cbn in Hsn.
+      assert (sn0 = sname) by congruence. subst sn0. clear Hsn.
+      destruct (assocL sname (d_structs D)) as [sd|] eqn:Esd; [|discriminate].
+      destruct (assocL field sd) as [ft|] eqn:Eft; [|discriminate]. inversion H1; subst ta t1 st1; clear H1.
+      pose proof (D_conc_s _ _ _ _ Esd Eft) as Hcft.
+      destruct (IH _ _ _ _ _ _ Hf2 H2 Hok Hrel Hcft) as [Hago [Hc' [He Hgd]]].
+      cbn [map ago]. fold (ago F G). rewrite xa_fld. cbn [export_ty].
+      change (Ast.TStruct (intern sname)) with (xt (CStruct sname)). rewrite xt_refl. cbn [export_ty].
+      rewrite (P_structs _ _ Esd). unfold xfields. rewrite assocN_map_intern, Eft. cbn [option_map]. auto.
+Qed.
+
+Lemma assocL_In {A} (k : list N) (l : list (list N * A)) v : assocL k l = Some v -> In (k, v) l.
+Proof.
+  induction l as [|[k' v'] l IH]; [discriminate|]. cbn [assocL]. destruct (list_eqb k k') eqn:E.
+  - intro H. inversion H; subst. apply list_eqb_eq in E. subst. left. reflexivity.
+  - intro H. right. auto.
+Qed.
+
+Lemma call_args f F G : forall l (ps : list (bool * list N * cty)) l',
+  zipM (fun a (p : bool * list N * cty) => check_type f a (snd p)) l ps = COk l' ->
+  forallb conc_e l = true -> forallb (fun e => Wt.wt_expr F P' G (xe e)) l = true -> length l = length ps ->
+  l' = l /\ Wt.forallb2 (fun e pt => Wt.ty_eqb (Ast.e_ty e) (snd pt) && Wt.wt_expr F P' G e) (map xe l) (xparams ps) = true.
+Proof.
+  induction l as [|x l IH]; intros ps l' H Hc Hw Hlen.
+  - destruct ps; [|discriminate]. cbn in H. inversion H. split; reflexivity.
+  - destruct ps as [|p ps]; [discriminate|]. cbn [zipM] in H.
+    apply cbind_ok in H. destruct H as [x' [Hx H]]. apply cbind_ok in H. destruct H as [r' [Hr H]]. inversion H; subst; clear H.
+    cbn [forallb] in Hc, Hw. apply andb_true_iff in Hc. destruct Hc as [Hc1 Hc2]. apply andb_true_iff in Hw. destruct Hw as [Hw1 Hw2].
+    destruct (check_type_conc _ _ _ _ Hx Hc1) as [-> Ht].
+    destruct (IH _ _ Hr Hc2 Hw2 ltac:(cbn in Hlen; lia)) as [-> Hf2].
+    split; [reflexivity|]. cbn [map xparams Wt.forallb2 snd]. fold (xparams ps). rewrite e_ty_xe, Ht, xt_refl, Hw1, Hf2. reflexivity.
+Qed.
+
+Lemma enum_args f F G : forall l (ts : list cty) l',
+  zipM (fun a t => check_type f a t) l ts = COk l' ->
+  forallb conc_e l = true -> forallb (fun e => Wt.wt_expr F P' G (xe e)) l = true -> length l = length ts ->
+  l' = l /\ Wt.forallb2 (fun e t => Wt.ty_eqb (Ast.e_ty e) t && Wt.wt_expr F P' G e) (map xe l) (map xt ts) = true.
+Proof.
+  induction l as [|x l IH]; intros ts l' H Hc Hw Hlen.
+  - destruct ts; [|discriminate]. cbn in H. inversion H. split; reflexivity.
+  - destruct ts as [|t ts]; [discriminate|]. cbn [zipM] in H.
+    apply cbind_ok in H. destruct H as [x' [Hx H]]. apply cbind_ok in H. destruct H as [r' [Hr H]]. inversion H; subst; clear H.
+    cbn [forallb] in Hc, Hw. apply andb_true_iff in Hc. destruct Hc as [Hc1 Hc2]. apply andb_true_iff in Hw. destruct Hw as [Hw1 Hw2].
+    destruct (check_type_conc _ _ _ _ Hx Hc1) as [-> Ht].
+    destruct (IH _ _ Hr Hc2 Hw2 ltac:(cbn in Hlen; lia)) as [-> Hf2].
+    split; [reflexivity|]. cbn [map Wt.forallb2]. rewrite e_ty_xe, Ht, xt_refl, Hw1, Hf2. reflexivity.
+Qed.
+
+
+
+(* the clauses of a match *)
+Lemma arms_sound f F ty : E f -> (f <= F)%nat -> conc_ty ty = true -> forall clauses st rc st' G,
+  forallb (fun pa : upattern * xexpr => frag_p (fst pa) && frag_e (snd pa)) clauses = true ->
+  mapM_st (fun st (pc : upattern * xexpr) =>
+             do rp <- check_pattern D (env_push (st_env st)) (fst pc) ty;
+             do re <- check_expr intern f D (with_env st (snd rp)) (snd pc);
+             COk ((fst rp, fst re), with_env (snd re) (env_pop (st_env (snd re))))) st clauses = COk (rc, st') ->
+  good st -> env_rel (st_env st) G ->
+  forallb (fun a : tpattern * texpr => conc_e (snd a)) rc = true /\
+  forallb (fun a : tpattern * texpr =>
+             Wt.ty_eqb (Ast.p_ty (xp (fst a))) (xt ty) &&
+             match Wt.wt_pat P' (xp (fst a)) with
+             | Some bs => Wt.wt_expr F P' (Wt.tbind_all ([] :: G) bs false) (xe (snd a))
+             | None => false
+             end) rc = true /\
+  good st' /\ st_env st' = st_env st.
+Proof.
+  intros HE HF Hcty. induction clauses as [|[p e] clauses IH]; intros st rc st' G Hf H Hok Hrel; cbn [mapM_st] in H.
+  - inversion H; subst. repeat split; try reflexivity; apply Hok.
+  - cbn [forallb fst snd] in Hf. apply andb_true_iff in Hf. destruct Hf as [Hf1 Hf2]. apply andb_true_iff in Hf1. destruct Hf1 as [Hfp Hfe].
+    apply cbind_ok in H. destruct H as [[[p1 e1] st1] [H1 H]]. apply cbind_ok in H. destruct H as [[rc2 st2] [H2 H]].
+    cbn [fst snd] in H. inversion H; subst; clear H.
+    apply cbind_ok in H1. destruct H1 as [[pp g1] [Hp H1]]. apply cbind_ok in H1. destruct H1 as [[ee st3] [He H1]].
+    cbn [fst snd] in *. inversion H1; subst; clear H1.
+    destruct (pat_sound p _ _ _ _ Hfp Hp) as [Hpty [bs [Hwp [Hrp Hop]]]].
+    assert (Hg3 : good (with_env st g1)).
+    { apply good_with_env; [exact Hok|]. apply Hop; [exact Hcty|]. apply env_ok_push. exact (proj1 Hok). }
+    destruct (HE _ _ _ _ (Wt.tbind_all ([] :: G) bs false) F Hfe He Hg3) as [Hce Hwe].
+    { cbn [st_env with_env]. apply Hrp. apply env_rel_push. exact Hrel. }
+    { exact HF. }
+    pose proof (proj1 (check_env intern f D) _ _ _ He) as Henv. cbn [snd st_env with_env] in Henv.
+    pose proof (check_pattern_tl _ _ _ _ _ Hp) as Htl. cbn [snd env_push tl] in Htl.
+    pose proof (good_e _ _ _ _ He Hg3) as Hg4. cbn [snd] in Hg4.
+    assert (Henv1 : st_env (with_env st3 (env_pop (st_env st3))) = st_env st).
+    { cbn [st_env with_env]. change env_pop with (@tl cscope). congruence. }
+    assert (Hg1 : good (with_env st3 (env_pop (st_env st3)))).
+    { split; [rewrite Henv1; exact (proj1 Hok)|exact (proj2 Hg4)]. }
+    destruct (IH _ _ _ G Hf2 H2 Hg1 ltac:(rewrite Henv1; exact Hrel)) as [Hc2 [Hw2 [Hg2 He2]]].
+    cbn [forallb fst snd]. rewrite Hce, Hc2, Hpty, xt_refl, Hwp, Hwe, Hw2.
+    repeat split; try reflexivity; [apply Hg2|apply Hg2|congruence].
+Qed.
+
+Lemma match_retype ret_ty : forall rc rc',
+  mapM (fun pc : tpattern * texpr =>
+          if negb (cty_eqb ret_ty (ty_of (snd pc))) then
+            match ret_ty with
+            | CUnsigned expected => do x <- check_or_constrain_unsigned (snd pc) expected; COk (fst pc, x)
+            | CSigned expected => do x <- check_or_constrain_signed (snd pc) expected; COk (fst pc, x)
+            | _ => CErr E_UnexpectedType
+            end
+          else COk pc) rc = COk rc' ->
+  forallb (fun a : tpattern * texpr => conc_e (snd a)) rc = true ->
+  rc' = rc /\ forall a, In a rc -> ty_of (snd a) = ret_ty.
+Proof.
+  induction rc as [|[p e] rc IH]; intros rc' H Hc; cbn [mapM] in H.
+  - inversion H. split; [reflexivity|intros a []].
+  - apply cbind_ok in H. destruct H as [x [Hx H]]. apply cbind_ok in H. destruct H as [r [Hr H]]. inversion H; subst; clear H.
+    cbn [forallb snd] in Hc. apply andb_true_iff in Hc. destruct Hc as [Hc1 Hc2].
+    destruct (IH _ Hr Hc2) as [-> Hall]. cbn [snd fst] in Hx.
+    assert (Hxe : x = (p, e) /\ ty_of e = ret_ty).
+    { destruct (cty_eqb ret_ty (ty_of e)) eqn:Eq.
+      - cbn [negb] in Hx. inversion Hx. apply cty_eqb_eq in Eq. auto.
+      - cbn [negb] in Hx. destruct ret_ty; try discriminate Hx.
+        + apply cbind_ok in Hx. destruct Hx as [y [Hy Hx]]. inversion Hx; subst.
+          destruct (coc_unsigned_conc _ _ _ Hy (conc_e_ty _ Hc1)) as [-> Ht]. auto.
+        + apply cbind_ok in Hx. destruct Hx as [y [Hy Hx]]. inversion Hx; subst.
+          destruct (coc_signed_conc _ _ _ Hy (conc_e_ty _ Hc1)) as [-> Ht]. auto. }
+    destruct Hxe as [-> Hte]. split; [reflexivity|]. intros a [<-|Ha]; [exact Hte|auto].
+Qed.
+
+Lemma arms_wt F G sty rty : forall rc,
+  forallb (fun a : tpattern * texpr =>
+             Wt.ty_eqb (Ast.p_ty (xp (fst a))) sty &&
+             match Wt.wt_pat P' (xp (fst a)) with
+             | Some bs => Wt.wt_expr F P' (Wt.tbind_all ([] :: G) bs false) (xe (snd a))
+             | None => false
+             end) rc = true ->
+  (forall a, In a rc -> ty_of (snd a) = rty) ->
+  forallb (fun arm : Ast.pattern * Ast.expr =>
+             Wt.ty_eqb (Ast.p_ty (fst arm)) sty && Wt.ty_eqb (Ast.e_ty (snd arm)) (xt rty) &&
+             match Wt.wt_pat P' (fst arm) with
+             | Some bs => Wt.wt_expr F P' (Wt.tbind_all ([] :: G) bs false) (snd arm)
+             | None => false
+             end) (map (fun a => (xp (fst a), xe (snd a))) rc) = true.
+Proof.
+  induction rc as [|a rc IH]; intros H Ht; [reflexivity|]. cbn [forallb map fst snd] in *.
+  apply andb_true_iff in H. destruct H as [H1 H2]. apply andb_true_iff in H1. destruct H1 as [H1a H1b].
+  rewrite H1a, H1b, e_ty_xe, (Ht a (or_introl eq_refl)), xt_refl. cbn [andb].
+  apply IH; [exact H2|]. intros b Hb. apply Ht. right. exact Hb.
+Qed.
+
+(* ------------------------------------------------------------------ struct literals *)
+
+Lemma memL_false_notin x l : memL x l = false -> ~ In x l.
+Proof.
+  unfold memL. intros H Hin. rewrite <- not_true_iff_false in H. apply H.
+  apply existsb_exists. exists x. split; [exact Hin|apply list_eqb_refl].
+Qed.
+
+Lemma slit_sound f F sd : E f -> (f <= F)%nat -> forall fields seen st tfields st' G,
+  forallb (fun nf : list N * xexpr => frag_e (snd nf)) fields = true ->
+  struct_lit_loop (check_expr intern f D) f sd seen st fields = COk (tfields, st') ->
+  good st -> env_rel (st_env st) G ->
+  map fst tfields = map fst fields /\ NoDup (map fst fields) /\
+  (forall x, In x seen -> ~ In x (map fst fields)) /\
+  Forall (fun nf : list N * texpr => exists t, assocL (fst nf) sd = Some t /\ ty_of (snd nf) = t /\
+            conc_e (snd nf) = true /\ Wt.wt_expr F P' G (xe (snd nf)) = true) tfields /\
+  good st' /\ st_env st' = st_env st.
+Proof.
+  intros HE HF. induction fields as [|[fname fv] fields IH]; intros seen st tfields st' G Hf H Hok Hrel; cbn [struct_lit_loop] in H.
+  - inversion H; subst. repeat split; try constructor; auto; apply Hok.
+  - cbn [forallb snd] in Hf. apply andb_true_iff in Hf. destruct Hf as [Hf1 Hf2].
+    destruct (memL fname seen) eqn:Em; [discriminate|].
+    destruct (assocL fname sd) as [ety|] eqn:Ea; [|discriminate].
+    apply cbind_ok in H. destruct H as [[e1 st1] [He H]]. cbn [fst snd] in H.
+    apply cbind_ok in H. destruct H as [tf [Hct H]]. apply cbind_ok in H. destruct H as [[tfs st2] [Hl H]].
+    cbn [fst snd] in H. inversion H; subst; clear H.
+    destruct (HE _ _ _ _ G F Hf1 He Hok Hrel HF) as [Hc Hw].
+    destruct (check_type_conc _ _ _ _ Hct Hc) as [-> Ety].
+    pose proof (proj1 (check_env intern f D) _ _ _ He) as Henv. cbn [snd] in Henv.
+    pose proof (good_e _ _ _ _ He Hok) as Hg1. cbn [snd] in Hg1.
+    destruct (IH (fname :: seen) _ _ _ G Hf2 Hl Hg1 ltac:(rewrite Henv; exact Hrel)) as [Hn [Hnd [Hseen [Hall [Hg2 He2]]]]].
+    cbn [map fst]. split; [rewrite Hn; reflexivity|]. split.
+    { constructor; [apply Hseen; left; reflexivity|exact Hnd]. }
+    split.
+    { intros x Hx [Heq|Hin]; [subst x; exact (memL_false_notin _ _ Em Hx)|exact (Hseen x (or_intror Hx) Hin)]. }
+    split; [constructor; [exists ety; cbn [fst snd]; auto|exact Hall]|]. split; [exact Hg2|congruence].
+Qed.
+
+Lemma filter_none {A} (g : list N * A -> N * Ast.expr) k (l : list (list N * A)) :
+  (forall x, fst (g x) = intern (fst x)) -> ~ In k (map fst l) ->
+  filter (fun fe : N * Ast.expr => fst fe =? intern k) (map g l) = [].
+Proof.
+  intros Hg. induction l as [|x l IH]; intro Hn; [reflexivity|]. cbn [map filter]. rewrite Hg, intern_eqb.
+  destruct (list_eqb (fst x) k) eqn:E.
+  - apply list_eqb_eq in E. exfalso. apply Hn. left. exact E.
+  - apply IH. intro H. apply Hn. right. exact H.
+Qed.
+
+Lemma filter_unique {A} (g : list N * A -> N * Ast.expr) k v (l : list (list N * A)) :
+  (forall x, fst (g x) = intern (fst x)) -> NoDup (map fst l) -> In (k, v) l ->
+  filter (fun fe : N * Ast.expr => fst fe =? intern k) (map g l) = [g (k, v)].
+Proof.
+  intros Hg. induction l as [|x l IH]; intros Hnd Hin; [destruct Hin|]. cbn [map fst] in Hnd. inversion Hnd as [|? ? Hn Hnd']; subst.
+  cbn [map filter]. rewrite Hg, intern_eqb. destruct Hin as [->|Hin].
+  - cbn [fst]. rewrite list_eqb_refl. f_equal. apply filter_none; assumption.
+  - destruct (list_eqb (fst x) k) eqn:E; [|apply IH; assumption].
+    apply list_eqb_eq in E. exfalso. apply Hn. rewrite E. change k with (fst (k, v)). apply in_map. exact Hin.
+Qed.
+
+Lemma In_assocL_nodup {A} (l : list (list N * A)) k v : NoDup (map fst l) -> In (k, v) l -> assocL k l = Some v.
+Proof.
+  induction l as [|[k0 v0] l IH]; intros Hnd Hin; [destruct Hin|]. cbn [map fst] in Hnd. inversion Hnd as [|? ? Hn Hnd']; subst.
+  cbn [assocL]. destruct Hin as [Heq|Hin].
+  - inversion Heq; subst. rewrite list_eqb_refl. reflexivity.
+  - destruct (list_eqb k k0) eqn:E; [|apply IH; assumption].
+    apply list_eqb_eq in E. subst. exfalso. apply Hn. change k0 with (fst (k0, v)). apply in_map. exact Hin.
+Qed.
+
+Lemma slit_wt F G sd (fields : list (list N * xexpr)) (tfields : list (list N * texpr)) :
+  NoDup (map fst sd) -> map fst tfields = map fst fields -> NoDup (map fst fields) ->
+  missing_field sd fields = false ->
+  Forall (fun nf : list N * texpr => exists t, assocL (fst nf) sd = Some t /\ ty_of (snd nf) = t /\
+            conc_e (snd nf) = true /\ Wt.wt_expr F P' G (xe (snd nf)) = true) tfields ->
+  (lenN (map (fun f : list N * texpr => (intern (fst f), xe (snd f))) tfields) =? lenN (xfields sd)) &&
+  forallb (fun d : N * Ast.ty =>
+             match filter (fun fe : N * Ast.expr => fst fe =? fst d)
+                          (map (fun f : list N * texpr => (intern (fst f), xe (snd f))) tfields) with
+             | [(_, fe)] => Wt.ty_eqb (Ast.e_ty fe) (snd d) && Wt.wt_expr F P' G fe
+             | _ => false
+             end) (xfields sd) = true.
+Proof.
+  intros Hnds Hn Hndf Hmiss Hall.
+  assert (Hndt : NoDup (map fst tfields)) by (rewrite Hn; exact Hndf).
+  assert (Hin1 : incl (map fst tfields) (map fst sd)).
+  { intros k Hk. apply in_map_iff in Hk. destruct Hk as [[k0 e0] [<- Hk]]. rewrite Forall_forall in Hall.
+    destruct (Hall _ Hk) as [t [Ha _]]. cbn [fst] in *. apply assocL_In in Ha. change k0 with (fst (k0, t)). apply in_map. exact Ha. }
+  assert (Hin2 : incl (map fst sd) (map fst tfields)).
+  { intros k Hk. rewrite Hn. apply in_map_iff in Hk. destruct Hk as [d [<- Hd]].
+    unfold missing_field in Hmiss. rewrite <- not_true_iff_false in Hmiss.
+    destruct (existsb (fun f0 : list N * xexpr => list_eqb (fst f0) (fst d)) fields) eqn:Ex.
+    - apply existsb_exists in Ex. destruct Ex as [f0 [Hf0 Heq]]. apply list_eqb_eq in Heq. rewrite <- Heq. apply in_map. exact Hf0.
+    - exfalso. apply Hmiss. apply existsb_exists. exists d. split; [exact Hd|]. rewrite Ex. reflexivity. }
+  apply andb_true_iff. split.
+  - apply N.eqb_eq. unfold lenN, xfields. rewrite !map_length. f_equal.
+    pose proof (NoDup_incl_length Hndt Hin1) as L1. pose proof (NoDup_incl_length Hnds Hin2) as L2.
+    rewrite !map_length in L1, L2. lia.
+  - apply forallb_forall. intros d Hd. unfold xfields in Hd. apply in_map_iff in Hd. destruct Hd as [[k t] [<- Hkt]].
+    cbn [fst snd].
+    assert (Hk : In k (map fst tfields)) by (apply Hin2; change k with (fst (k, t)); apply in_map; exact Hkt).
+    apply in_map_iff in Hk. destruct Hk as [[k0 e0] [Hk0 He0]]. cbn [fst] in Hk0. subst k0.
+    rewrite (filter_unique (fun f : list N * texpr => (intern (fst f), xe (snd f))) k e0 tfields (fun x => eq_refl) Hndt He0).
+    cbn [fst snd]. rewrite Forall_forall in Hall. destruct (Hall _ He0) as [t' [Ha [Hty [_ Hw]]]]. cbn [fst snd] in *.
+    rewrite (In_assocL_nodup _ _ _ Hnds Hkt) in Ha. injection Ha as Ha.
+    rewrite e_ty_xe, Hty, <- Ha, xt_refl, Hw. reflexivity.
 Qed.
 
 Ltac env_tac := first [assumption | (repeat match goal with He : st_env _ = st_env _ |- _ => rewrite He end); assumption].
@@ -811,9 +1529,11 @@ Proof.
       rewrite (lit_s_conc _ _ Hf), (lit_s_fits _ _ Hf). split; reflexivity.
     + (* identifier *)
       destruct (env_get (st_env st) s) as [[ty m]|] eqn:Eg.
-      * inv_all. cbn [conc_e export_expr Wt.wt_expr]. rewrite (Hok _ _ _ Eg).
-        destruct (Hrel _ _ _ Eg) as [m' [Hl _]]. rewrite Hl, xt_refl. split; reflexivity.
-      * rewrite D_consts in H. discriminate.
+      * inv_all. cbn [conc_e export_expr Wt.wt_expr]. rewrite (proj1 Hok _ _ _ Eg).
+        destruct (proj1 Hrel _ _ _ Eg) as [m' [Hl _]]. rewrite Hl, xt_refl. split; reflexivity.
+      * destruct (assocL s (d_consts D)) as [ty|] eqn:Ecn; [|discriminate]. inv_all.
+        cbn [conc_e export_expr Wt.wt_expr]. rewrite (D_conc_c _ _ Ecn).
+        destruct (proj2 Hrel _ _ Eg Ecn) as [m' Hl]. rewrite Hl, xt_refl. split; reflexivity.
     + (* array literal *)
       apply cbind_ok in H. destruct H as [[es1 st1] [Hes H]]. cbn [fst snd] in H.
       destruct (exprs_sound f F HE HF _ _ _ _ G Hf Hes Hok Hrel) as [Hces [Hwes [Hlen Henv]]].
@@ -853,6 +1573,63 @@ Proof.
       cbn [conc_ty] in Hct.
       cbn [conc_e export_expr Wt.wt_expr]. rewrite e_ty_xe, Ett. cbn [export_ty]. rewrite nthN_map, En. cbn [option_map].
       rewrite xt_refl, Hw, Hc, (conc_nth _ _ _ Hct En). split; reflexivity.
+    + (* field access *)
+      bind_e H s1 st1 Hs. apply cbind_ok in H. destruct H as [sname [Hsn H]].
+      sub_e HE G F HF Hs.
+      destruct (ty_of s1) as [| | | | |sn0|] eqn:Ets; try discriminate Hsn. cbn in Hsn.
+      assert (sn0 = sname) by congruence. subst sn0. clear Hsn.
+      destruct (assocL sname (d_structs D)) as [sd|] eqn:Esd; [|discriminate].
+      match type of H with context [assocL ?fld sd] => destruct (assocL fld sd) as [ft|] eqn:Eft; [|discriminate] end.
+      inversion H; subst; clear H.
+      cbn [conc_e export_expr Wt.wt_expr]. rewrite e_ty_xe, Ets. cbn [export_ty]. rewrite (P_structs _ _ Esd).
+      unfold xfields. rewrite assocN_map_intern, Eft. cbn [option_map].
+      rewrite xt_refl, Hw, Hc, (D_conc_s _ _ _ _ Esd Eft). split; reflexivity.
+    + (* struct literal *)
+      destruct (assocL name (d_structs D)) as [sd|] eqn:Esd; [|discriminate].
+      apply cbind_ok in H. destruct H as [[tfields st1] [Hl H]]. cbn [fst snd] in H.
+      destruct (missing_field sd fields) eqn:Em; [discriminate|]. inversion H; subst; clear H.
+      destruct (slit_sound f F sd HE HF _ _ _ _ _ G Hf Hl Hok Hrel) as [Hn [Hnd [_ [Hall [_ _]]]]].
+      assert (Hcf : forallb (fun f1 : list N * texpr => conc_e (snd f1)) tfields = true).
+      { apply forallb_forall. intros x Hx. rewrite Forall_forall in Hall. destruct (Hall _ Hx) as [? [_ [_ [Hcx _]]]]. exact Hcx. }
+      cbn [conc_e conc_ty export_expr Wt.wt_expr export_ty]. rewrite Hcf, (P_structs _ _ Esd), N.eqb_refl.
+      pose proof (slit_wt F G sd fields tfields (D_nodup_s _ _ Esd) Hn Hnd Em Hall) as Hwt.
+      cbn [andb]. rewrite Hwt. split; reflexivity.
+    + (* enum literal *)
+      match type of H with context [assocL ?en0 (d_enums D)] =>
+        destruct (assocL en0 (d_enums D)) as [ed|] eqn:Eed; [|discriminate] end.
+      match type of H with context [assocL ?v0 ed] =>
+        destruct (assocL v0 ed) as [[pts|]|] eqn:Ev; [| |discriminate] end.
+      * (* tuple variant *)
+        destruct args as [es|]; [|discriminate].
+        destruct (negb (lenN es =? lenN pts)) eqn:El; [discriminate|].
+        apply cbind_ok in H. destruct H as [[es1 st1] [Hes H]]. cbn [fst snd] in H.
+        apply cbind_ok in H. destruct H as [args' [Hz H]]. inversion H; subst; clear H.
+        destruct (exprs_sound f F HE HF _ _ _ _ G Hf Hes Hok Hrel) as [Hces [Hwes [Hlen Henv]]].
+        apply negb_false_iff in El. apply N.eqb_eq in El. unfold lenN in El. apply Nat2N.inj in El.
+        destruct (enum_args _ F G _ _ _ Hz Hces Hwes ltac:(lia)) as [-> Hargs].
+        cbn [conc_e conc_ty export_expr Wt.wt_expr export_ty]. rewrite (P_enums _ _ Eed), N.eqb_refl, Hces.
+        rewrite (variant_nth _ _ _ _ Eed Ev), Hargs. split; reflexivity.
+      * (* unit variant *)
+        destruct args as [es|]; [discriminate|]. inversion H; subst; clear H.
+        cbn [conc_e conc_ty export_expr Wt.wt_expr export_ty]. rewrite (P_enums _ _ Eed), N.eqb_refl.
+        rewrite (variant_nth _ _ _ _ Eed Ev). cbn [map Wt.forallb2]. split; reflexivity.
+    + (* match *)
+      apply andb_true_iff in Hf. destruct Hf as [Hfs Hfa].
+      bind_e H s1 st1 Hs. sub_e HE G F HF Hs. pose proof (conc_e_ty _ Hc) as Hcs.
+      assert (Hrel1 : env_rel (st_env st1) G) by env_tac.
+      destruct (ty_of s1) eqn:Ets; try discriminate H.
+      all: (apply cbind_ok in H; destruct H as [[rc st2] [Hrc H]]; cbn [fst snd] in H;
+            match type of Hrc with mapM_st _ _ _ = _ =>
+              destruct (arms_sound f F _ HE HF Hcs _ _ _ _ G Hfa Hrc Hg Hrel1) as [Hca [Hwa [Hg2 Henv2]]] end;
+            destruct rc as [|[p0 first] rc']; [discriminate|];
+            assert (Hcf : conc_ty (ty_of first) = true)
+              by (cbn [forallb snd] in Hca; apply andb_true_iff in Hca; apply conc_e_ty; tauto);
+            rewrite (pick_conc _ _ Hcf) in H;
+            apply cbind_ok in H; destruct H as [clauses' [Hm H]]; apply cbind_ok in H; destruct H as [u0 [_ H]];
+            inversion H; subst; clear H;
+            destruct (match_retype _ _ _ Hm Hca) as [-> Hall];
+            cbn [conc_e export_expr Wt.wt_expr]; rewrite Hc, Hw, Hcf, Hca, e_ty_xe, Ets;
+            rewrite (arms_wt F G _ _ _ Hwa Hall); split; reflexivity).
     + (* unary *)
       destruct o; inv_all';
         match goal with Hx : Infer.check_expr _ _ _ _ _ = COk _ |- _ => sub_e HE G F HF Hx end;
@@ -885,13 +1662,44 @@ Proof.
     + (* block *)
       apply cbind_ok in H. destruct H as [[[body ty] st1] [Hblk H]]. cbv beta iota in H. inv_all.
       destruct (HB _ _ _ _ _ ([] :: G) F Hf Hblk) as [Hcb Hwb].
-      { apply env_ok_push. exact Hok. }
+      { apply good_with_env; [exact Hok|]. apply env_ok_push. exact (proj1 Hok). }
       { apply env_rel_push. exact Hrel. }
       { exact HF. }
       assert (Ety : ty = last_expr_ty body).
       { destruct f as [|f0]; [discriminate|]. cbn [check_block] in Hblk. refold Hblk. inv_all. reflexivity. }
       rewrite xe_block, wt_expr_block, Hwb, xt_refl. cbn [conc_e]. rewrite Hcb.
       rewrite Ety, (last_expr_ty_conc _ Hcb). split; reflexivity.
+    + (* call *)
+      apply cbind_ok in H. destruct H as [st1 [Hst1 H]]. cbv beta in H.
+      assert (Hg1 : good st1 /\ st_env st1 = st_env st).
+      { destruct (negb _) in Hst1; [|inversion Hst1; subst; split; [exact Hok|reflexivity]].
+        destruct (find _ (d_fns D)) eqn:Ef; [|inversion Hst1; subst; split; [exact Hok|reflexivity]].
+        apply cbind_ok in Hst1. destruct Hst1 as [[fd1 st2] [Hcf Hst1]]. cbn [fst snd] in Hst1. inversion Hst1; subst; clear Hst1.
+        pose proof (proj2 (proj2 (proj2 (proj2 (check_env intern f D)))) _ _ _ Hcf) as He2. cbn [snd] in He2.
+        pose proof (proj2 (proj2 (proj2 (proj2 (Qs_pres intern D f)))) _ _ _ Hcf (proj2 Hok)) as HQ2. cbn [snd] in HQ2.
+        split; [split|]; cbn [st_env st_typed].
+        - rewrite He2. exact (proj1 Hok).
+        - constructor; [exact (Qs_ins _ _ _ _ _ _ _ Ef Hcf)|exact HQ2].
+        - exact He2. }
+      destruct Hg1 as [Hg1 Henv1]. clear Hst1.
+      destruct (assocL f0 (st_typed st1)) as [fn_def|] eqn:Ea; [|discriminate].
+      destruct (env_get (st_env st1) f0); [discriminate|].
+      apply cbind_ok in H. destruct H as [[es1 st2] [Hes H]]. cbn [fst snd] in H.
+      destruct (negb (lenN (tf_params fn_def) =? lenN es1)) eqn:El; [discriminate|].
+      apply cbind_ok in H. destruct H as [args' [Hz H]]. inversion H; subst; clear H.
+      assert (Hrel1 : env_rel (st_env st1) G) by (rewrite Henv1; exact Hrel).
+      destruct (exprs_sound f F HE HF _ _ _ _ G Hf Hes Hg1 Hrel1) as [Hces [Hwes [Hlen Henv2]]].
+      assert (HQ : Qs D (f0, fn_def)).
+      { pose proof (proj2 Hg1) as HQall. rewrite Forall_forall in HQall. apply HQall. apply assocL_In. exact Ea. }
+      destruct HQ as [ufd [Hfind [Hsp [Hsr _]]]]. cbn [fst snd] in *.
+      destruct (P_sig _ _ _ _ Hfind Hsp Hsr) as [d [Hd [Hdp Hdr]]].
+      assert (Hcr : conc_ty (tf_ty fn_def) = true).
+      { pose proof (find_some _ _ Hfind) as [Hin _]. pose proof (D_frag _ Hin) as Hfr. unfold frag_fn in Hfr.
+        apply andb_true_iff in Hfr. destruct Hfr as [Hfr _]. apply andb_true_iff in Hfr. destruct Hfr as [_ Hfr].
+        eapply as_concrete_conc; [exact Hsr|exact Hfr]. }
+      apply negb_false_iff in El. apply N.eqb_eq in El. unfold lenN in El. apply Nat2N.inj in El.
+      destruct (call_args _ F G _ _ _ Hz Hces Hwes ltac:(lia)) as [-> Hargs].
+      cbn [conc_e export_expr Wt.wt_expr export_ty]. rewrite Hcr, Hces, Hd, Hdr, xt_refl, Hdp, Hargs. split; reflexivity.
     + (* if *)
       apply andb_true_iff in Hf. destruct Hf as [Hf Hf3]. apply andb_true_iff in Hf. destruct Hf as [Hf1 Hf2].
       bind_e H c1 st1 Hc1. bind_e H a1 st2 Ha. bind_e H b1 st3 Hb.
@@ -933,7 +1741,7 @@ Proof.
       cbn [fst snd] in H. inversion H; subst; clear H.
       destruct (pat_sound p _ _ _ _ Hfp Hp) as [Hpty [bs [Hwp [Hrp Hop]]]].
       split; [exact Hc|]. exists (Wt.tbind_all G bs false). cbn [st_env with_env].
-      split; [|split; [apply Hop; assumption|apply Hrp; env_tac]].
+      split; [|split; [apply good_with_env; [exact Hg|]; apply Hop; [assumption|exact (proj1 Hg)]|apply Hrp; env_tac]].
       rewrite xs_let, wt_stmt_let, Hw, e_ty_xe, Hpty, xt_refl, Hwp. reflexivity.
     + (* let mut *)
       bind_e H e1 st1 He. sub_e HE G F HF He. pose proof (conc_e_ty _ Hc) as Hct.
@@ -945,20 +1753,18 @@ Proof.
       apply cbind_ok in H. destruct H as [e3 [Hi H]]. inversion H; subst; clear H.
       apply constrain_to_i32_conc in Hi; [|exact Hc]. subst e3.
       split; [exact Hc|]. exists (Wt.tbind G (intern x) (xt (ty_of e1)) true).
-      cbn [st_env with_env]. rewrite Henv.
-      split; [|split; [apply env_ok_let; assumption|apply env_rel_let; assumption]].
+      split; [|split; [apply good_with_env; [exact Hg|]; apply env_ok_let; [exact (proj1 Hg)|assumption]|cbn [st_env with_env]; rewrite Henv; apply env_rel_let; assumption]].
       rewrite xs_letmut, wt_stmt_letmut, Hw, e_ty_xe. reflexivity.
     + (* assignment *)
       apply andb_true_iff in Hf. destruct Hf as [Hfa Hfe].
       destruct (env_get (st_env st) x) as [[tx [|]]|] eqn:Eg; try discriminate H.
       apply cbind_ok in H. destruct H as [[[tas t'] st1] [Hacc H]]. cbv beta iota in H.
       bind_e H v1 st2 Hv. apply cbind_ok in H. destruct H as [v2 [Hct H]]. inversion H; subst; clear H.
-      destruct (accs_ok f F HE HF _ _ _ _ _ _ G Hfa Hacc Hok Hrel (Hok _ _ _ Eg)) as [Hago [Hct' Henv1]].
-      assert (Hg1 : good st1) by (unfold good; rewrite Henv1; exact Hok).
+      destruct (accs_ok f F HE HF _ _ _ _ _ _ G Hfa Hacc Hok Hrel (proj1 Hok _ _ _ Eg)) as [Hago [Hct' [Henv1 Hg1]]].
       assert (Hr1 : env_rel (st_env st1) G) by (rewrite Henv1; exact Hrel).
       sub_e HE G F HF Hv. destruct (check_type_conc _ _ _ _ Hct Hc) as [-> Etv].
       split; [exact Hc|]. exists G. split; [|split; [exact Hg|env_tac]].
-      destruct (Hrel _ _ _ Eg) as [m' [Hl Hm]]. rewrite (Hm eq_refl) in Hl.
+      destruct (proj1 Hrel _ _ _ Eg) as [m' [Hl Hm]]. rewrite (Hm eq_refl) in Hl.
       rewrite xs_assign, wt_stmt_assign, Hl, Hago, e_ty_xe, Etv, xt_refl, Hw. reflexivity.
     + (* for *)
       apply andb_true_iff in Hf. destruct Hf as [Hf Hfb]. apply andb_true_iff in Hf. destruct Hf as [Hfp Hfe].
@@ -972,15 +1778,15 @@ Proof.
       inversion H; subst; clear H.
       destruct (pat_sound p _ _ _ _ Hfp Hp) as [Hpty [bs [Hwp [Hrp Hop]]]].
       destruct (HSs _ _ _ _ (Wt.tbind_all ([] :: G) bs false) F Hfb Hbody) as [Hcb [tb Hwb]]; [| |exact HF|].
-      { unfold good. cbn [st_env with_env]. apply Hop; [exact Hca|]. apply env_ok_push. exact Hg. }
+      { apply good_with_env; [exact Hg|]. apply Hop; [exact Hca|]. apply env_ok_push. exact (proj1 Hg). }
       { cbn [st_env with_env]. apply Hrp. apply env_rel_push. env_tac. }
       pose proof (proj1 (proj2 (check_env intern f D)) _ _ _ Hbody) as Htl. cbn [snd st_env with_env] in Htl.
       pose proof (check_pattern_tl _ _ _ _ _ Hp) as Htl2. cbn [snd env_push tl] in Htl2.
       split; [cbn [conc_s]; rewrite Hc, Hcb; reflexivity|]. exists G.
       assert (Henvf : env_pop (st_env st2) = st_env st).
       { change env_pop with (@tl cscope). congruence. }
-      cbn [st_env with_env]. unfold good. cbn [st_env]. rewrite Henvf.
-      split; [|split; assumption].
+      pose proof (proj1 (proj2 (Qs_pres intern D f)) _ _ _ Hbody) as HQb. cbn [snd st_typed with_env] in HQb.
+      split; [|split; [split; [cbn [st_env with_env]; rewrite Henvf; exact (proj1 Hok)|cbn [st_typed with_env]; apply HQb; exact (proj2 Hg)]|cbn [st_env with_env]; rewrite Henvf; exact Hrel]].
       rewrite xs_for, wt_stmt_for, e_ty_xe, Eta. cbn [export_ty]. rewrite Hw, Hpty, xt_refl, Hwp, Hwb. reflexivity.
     + (* expression statement *)
       bind_e H e1 st1 He. inversion H; subst; clear H.
@@ -996,19 +1802,6 @@ Proof. apply sound_all. Qed.
 
 
 (* ------------------------------------------------------------------ functions *)
-
-Lemma env_rel_let_mut g G x t m m' : (m = true -> m' = true) ->
-  env_rel g G -> env_rel (env_let g x t m) (Wt.tbind G (intern x) (xt t) m').
-Proof.
-  intros Hm H y t' m0 Hy. rewrite env_get_let in Hy. rewrite tlookup_tbind.
-  destruct (list_eqb y x) eqn:E.
-  - apply list_eqb_eq in E. subst y. rewrite N.eqb_refl. inversion Hy; subst. eauto.
-  - destruct (N.eqb_spec (intern y) (intern x)) as [Heq|Hne]; [|apply H; assumption].
-    apply intern_inj in Heq. subst y. rewrite list_eqb_refl in E. discriminate.
-Qed.
-
-Definition xparams (tps : list (bool * list N * cty)) : list (N * Ast.ty) :=
-  map (fun p => (intern (snd (fst p)), xt (snd p))) tps.
 
 Lemma params_ok : forall ps seen g tps g' G,
   forallb (fun p => conc_uty (upa_ty p)) ps = true ->
@@ -1056,28 +1849,31 @@ Proof.
 Qed.
 
 (* UntypedFnDef::type_check: the body of the typed function passes the re-checker in the
-   environment Wt.wt_fn builds from the parameters (no consts), with the declared return type *)
+   environment Wt.wt_fn builds from the parameters (over the consts environment gc), with the declared return type *)
 Lemma fn_sound f fd st tfd st' F :
   frag_fn fd = true -> check_fn intern f D st fd = COk (tfd, st') -> (f <= S F)%nat ->
+  Forall (Qs D) (st_typed st) ->
   exists t,
-    Wt.wt_block F P' ([] :: Wt.tbind_all ([] :: [[]]) (Ast.fn_params (export_fn intern en tfd)) true)
+    Wt.wt_block F P' ([] :: Wt.tbind_all ([] :: gc) (Ast.fn_params (export_fn intern en tfd)) true)
                 (Ast.fn_body (export_fn intern en tfd)) = Some t /\
     Wt.ty_eqb t (Ast.fn_ret (export_fn intern en tfd)) = true.
 Proof.
-  intros Hfr H HF. destruct f as [|f]; [discriminate|]. apply le_S_n in HF.
-  unfold frag_fn in Hfr. apply andb_true_iff in Hfr. destruct Hfr as [Hfp Hfb].
+  intros Hfr H HF HQ. destruct f as [|f]; [discriminate|]. apply le_S_n in HF.
+  unfold frag_fn in Hfr. apply andb_true_iff in Hfr. destruct Hfr as [Hfp Hfb]. apply andb_true_iff in Hfp. destruct Hfp as [Hfp _].
   cbn [Infer.check_fn] in H. refold H.
   destruct (memL (uf_name fd) (st_checking st)); [discriminate|].
   apply cbind_ok in H. destruct H as [[tps g1] [Hps H]]. cbn [fst snd] in H.
   apply cbind_ok in H. destruct H as [[[body ty] st1] [Hblk H]]. cbv beta iota zeta in H.
   apply cbind_ok in H. destruct H as [ret_ty [Hret H]]. apply cbind_ok in H. destruct H as [body' [Hlast H]].
   inversion H; subst; clear H.
-  destruct (params_ok _ _ _ _ _ ([] :: [[]]) Hfp Hps) as [Hok1 Hrel1].
+  destruct (params_ok _ _ _ _ _ ([] :: gc) Hfp Hps) as [Hok1 Hrel1].
   { intros x t m Hx. discriminate Hx. }
-  { intros x t m Hx. discriminate Hx. }
-  destruct (proj1 (proj2 (proj2 (sound_all f))) _ _ _ _ _ ([] :: Wt.tbind_all ([] :: [[]]) (xparams tps) true) F Hfb Hblk) as [Hcb Hwb].
-  { exact Hok1. }
-  { cbn [st_env]. intros x t m Hx. apply Hrel1 in Hx. cbn [Wt.tlookup Ast.assocN]. exact Hx. }
+  { split; [intros x t m Hx; discriminate Hx|]. intros x t _ Hc. cbn [Wt.tlookup Ast.assocN]. apply gc_consts. exact Hc. }
+  destruct (proj1 (proj2 (proj2 (sound_all f))) _ _ _ _ _ ([] :: Wt.tbind_all ([] :: gc) (xparams tps) true) F Hfb Hblk) as [Hcb Hwb].
+  { split; [exact Hok1|exact HQ]. }
+  { cbn [st_env]. destruct Hrel1 as [Hr1 Hr2]. split.
+    - intros x t m Hx. apply Hr1 in Hx. cbn [Wt.tlookup Ast.assocN]. exact Hx.
+    - intros x t Hx Hc. cbn [Wt.tlookup Ast.assocN]. eauto. }
   { exact HF. }
   assert (Ety : ty = last_expr_ty body).
   { destruct f as [|f0]; [discriminate|]. cbn [check_block] in Hblk. refold Hblk. inv_all. reflexivity. }
@@ -1093,165 +1889,71 @@ Qed.
 
 End Sound.
 
-Print Assumptions sound_all.
-Print Assumptions fn_sound.
-
-Ltac destr_tuples := repeat match goal with x : (_ * _)%type |- _ => destruct x end.
-Ltac inv_all' := repeat (progress (inv_all; destr_tuples; cbn [fst snd] in * )).
-
-Section TypedInvB.
-Variable intern : list N -> N.
-Variable D : defs.
-Notation check_expr := (check_expr intern).
-Notation check_stmt := (check_stmt intern).
-Notation check_stmts := (check_stmts intern).
-Notation check_block := (check_block intern).
-Notation check_fn := (check_fn intern).
-
-(* a property of the entries of `typed` that holds for whatever a successful function check
-   inserts is an invariant of the whole checker *)
-Variable Q : list N * tfndef -> Prop.
-Variable Bd : nat.
-Hypothesis Q_ins : forall f st ufd r id, (f < Bd)%nat -> Forall Q (st_typed st) ->
-  find (fun d => list_eqb (uf_name d) id) (d_fns D) = Some ufd ->
-  check_fn f D st ufd = COk r -> Q (id, fst r).
-
-Definition Rb (st st' : cstate) : Prop := Forall Q (st_typed st) -> Forall Q (st_typed st').
-
-Lemma R_reflb st : Rb st st. Proof. unfold Rb; auto. Qed.
-Lemma R_transb a b c : Rb a b -> Rb b c -> Rb a c. Proof. unfold Rb; auto. Qed.
-
-Lemma mapM_st_Rb {A B} (g : cstate -> A -> cres (B * cstate)) :
-  (forall st x r, g st x = COk r -> Rb st (snd r)) ->
-  forall l st r, mapM_st g st l = COk r -> Rb st (snd r).
-Proof.
-  intros Hg. induction l as [|x l IH]; intros st r H; cbn [mapM_st] in H; inv_all; [apply R_reflb|].
-  cbn [snd]. eapply R_transb; [eapply Hg; eauto|eapply IH; eauto].
-Qed.
-
-Lemma accs_loop_Rb ce :
-  (forall st x r, ce st x = COk r -> Rb st (snd r)) ->
-  forall accs st t r, accs_loop ce D st t accs = COk r -> Rb st (snd r).
-Proof.
-  intros Hce. induction accs as [|a accs IH]; intros st t r H; cbn [accs_loop] in H; [inv_all; apply R_reflb|].
-  apply cbind_ok in H. destruct H as [[[ta t'] st'] [H1 H2]]. cbv beta iota in H2.
-  apply cbind_ok in H2. destruct H2 as [[[tas tf] st''] [H2 H3]]. cbv beta iota in H3. inv_all. cbn [snd].
-  apply IH in H2. cbn [snd] in H2. eapply R_transb; [|exact H2]. clear H2 IH.
-  destruct a.
-  - inv_all'. match goal with H : ce _ _ = _ |- _ => apply Hce in H; exact H end.
-  - inv_all'. destruct (nthN _ _); inv_all. apply R_reflb.
-  - inv_all'. destruct (assocL _ (d_structs D)); [|discriminate]. destruct (assocL _ _); inv_all. apply R_reflb.
-Qed.
-
-Lemma struct_lit_loop_Rb ce f sd :
-  (forall st x r, ce st x = COk r -> Rb st (snd r)) ->
-  forall fields seen st r, struct_lit_loop ce f sd seen st fields = COk r -> Rb st (snd r).
-Proof.
-  intros Hce. induction fields as [|[fname fv] fields IH]; intros seen st r H; cbn [struct_lit_loop] in H; inv_all; [apply R_reflb|].
-  destruct (assocL fname sd); [|discriminate]. inv_all. cbn [snd].
-  eapply R_transb; [eapply Hce; eauto|eapply IH; eauto].
-Qed.
-
-Ltac refold H :=
-  fold (Infer.check_expr intern) (Infer.check_stmts intern) (Infer.check_block intern)
-       (Infer.check_fn intern) (Infer.check_stmt intern) in H.
-
-Ltac use_R IHe IHss IHb IHs IHf := repeat match goal with
-  | H : Infer.check_expr _ _ _ _ _ = COk _ |- _ => apply IHe in H
-  | H : Infer.check_stmts _ _ _ _ _ = COk _ |- _ => apply IHss in H
-  | H : Infer.check_block _ _ _ _ _ = COk _ |- _ => apply IHb in H
-  | H : Infer.check_fn _ _ _ _ _ = COk _ |- _ => apply IHf in H
-  | H : mapM_st (Infer.check_expr _ _ _) _ _ = COk _ |- _ => apply (mapM_st_Rb _ IHe) in H
-  | H : mapM_st (Infer.check_stmt _ _ _) _ _ = COk _ |- _ => apply (mapM_st_Rb _ IHs) in H
-  | H : accs_loop _ _ _ _ _ = COk _ |- _ => apply (accs_loop_Rb _ IHe) in H
-  | H : struct_lit_loop _ _ _ _ _ _ = COk _ |- _ => apply (struct_lit_loop_Rb _ _ _ IHe) in H
-  end.
-
-Ltac finR := unfold Rb in *; cbn [snd fst st_typed with_env] in *; eauto 12.
-
-Theorem check_typed_inv_b f : (f <= Bd)%nat ->
-  (forall st e r, check_expr f D st e = COk r -> Rb st (snd r)) /\
-  (forall st b r, check_stmts f D st b = COk r -> Rb st (snd r)) /\
-  (forall st b r, check_block f D st b = COk r -> Rb st (snd r)) /\
-  (forall st s r, check_stmt f D st s = COk r -> Rb st (snd r)) /\
-  (forall st fd r, check_fn f D st fd = COk r -> Rb st (snd r)).
-Proof.
-  induction f as [|f IH]; intro HfB.
-  { repeat split; intros; discriminate. }
-  destruct (IH ltac:(lia)) as (IHe & IHss & IHb & IHs & IHf).
-  split; [|split; [|split; [|split]]].
-  - intros st e r H. destruct e; cbn [Infer.check_expr] in H; refold H.
-    + inv_all; apply R_reflb.
-    + inv_all; apply R_reflb.
-    + inv_all; apply R_reflb.
-    + inv_all; apply R_reflb.
-    + destruct (env_get (st_env st) s) as [[? ?]|]; [inv_all; apply R_reflb|].
-      destruct (assocL s (d_consts D)); inv_all; apply R_reflb.
-    + inv_all. destruct (fst a) eqn:E; [discriminate|]. inv_all. use_R IHe IHss IHb IHs IHf. finR.
-    + inv_all. use_R IHe IHss IHb IHs IHf. finR.
-    + discriminate.
-    + inv_all. use_R IHe IHss IHb IHs IHf. finR.
-    + inv_all. use_R IHe IHss IHb IHs IHf. finR.
-    + inv_all. destruct (nthN _ _); inv_all. use_R IHe IHss IHb IHs IHf. finR.
-    + inv_all. destruct (assocL _ (d_structs D)); [|discriminate]. destruct (assocL _ _); inv_all. use_R IHe IHss IHb IHs IHf. finR.
-    + destruct (assocL name (d_structs D)); [|discriminate]. inv_all. use_R IHe IHss IHb IHs IHf. finR.
-    + destruct (assocL e (d_enums D)) as [ed|]; [|discriminate]. destruct (assocL v ed) as [[?|]|]; try discriminate;
-        destruct args; try discriminate; inv_all; use_R IHe IHss IHb IHs IHf; finR.
-    + (* match *)
-      inv_all. destruct (ty_of (fst a)) eqn:Ety; try discriminate; inv_all;
-      (destruct (fst a0) as [|[? ?] ?] eqn:E0; [discriminate|]; inv_all; cbn [snd];
-       match goal with H1 : mapM_st _ _ _ = COk ?a0 |- Rb _ (snd ?a0) =>
-         apply mapM_st_Rb in H1;
-         [use_R IHe IHss IHb IHs IHf; finR
-         |intros st0 pc r0 H0; inv_all; use_R IHe IHss IHb IHs IHf; finR] end).
-    + destruct o; inv_all; use_R IHe IHss IHb IHs IHf; finR.
-    + inv_all. destruct o; inv_all;
-        try (match goal with x : texpr * texpr * cty |- _ => destruct x as [[? ?] ?] end; inv_all);
-        try (destruct (ty_of (fst a)); try discriminate; destruct (ty_of (fst a0)); try discriminate; inv_all);
-        use_R IHe IHss IHb IHs IHf; finR.
-    + apply cbind_ok in H. destruct H as [[[body ty] st'] [H1 H]]. cbv beta iota in H. inv_all.
-      use_R IHe IHss IHb IHs IHf. finR.
-    + (* call *)
-      apply cbind_ok in H. destruct H as [st1 [H1 H]]. cbv beta in H.
-      assert (Hst1 : Rb st st1).
-      { destruct (negb _) in H1; [|inv_all; apply R_reflb].
-        destruct (find _ (d_fns D)) eqn:Ef; [|inv_all; apply R_reflb].
-        apply cbind_ok in H1. destruct H1 as [[fd1 st2] [H1 H2]]. cbv beta in H2. inv_all.
-        pose proof (fun HQ0 => Q_ins f _ _ _ _ ltac:(lia) HQ0 Ef H1) as Hq. apply IHf in H1. unfold Rb in *. cbn [snd fst st_typed] in *.
-        intro H0. constructor; auto. }
-      clear H1.
-      destruct (assocL f0 (st_typed st1)); [|discriminate].
-      destruct (env_get (st_env st1) f0); [discriminate|]. inv_all. use_R IHe IHss IHb IHs IHf. finR.
-    + discriminate.
-    + inv_all. destruct a3 as [[? ?] ?]. inv_all. use_R IHe IHss IHb IHs IHf. finR.
-    + inv_all. use_R IHe IHss IHb IHs IHf. finR.
-    + inv_all. apply R_reflb.
-  - intros st b r H. cbn [Infer.check_stmts] in H. refold H. use_R IHe IHss IHb IHs IHf. exact H.
-  - intros st b r H. cbn [Infer.check_block] in H. refold H. inv_all. use_R IHe IHss IHb IHs IHf. finR.
-  - intros st s r H. destruct s; cbn [Infer.check_stmt] in H; refold H.
-    + inv_all. use_R IHe IHss IHb IHs IHf. finR.
-    + inv_all. use_R IHe IHss IHb IHs IHf. finR.
-    + destruct (env_get (st_env st) x) as [[t [|]]|]; try discriminate.
-      apply cbind_ok in H. destruct H as [[[tas t'] st1] [H1 H]]. cbv beta iota in H. inv_all.
-      use_R IHe IHss IHb IHs IHf. finR.
-    + inv_all. use_R IHe IHss IHb IHs IHf. finR.
-    + inv_all. use_R IHe IHss IHb IHs IHf. finR.
-  - intros st fd r H. cbn [Infer.check_fn] in H. refold H. inv_all.
-    destruct a0 as [[body ?] st1]. inv_all. use_R IHe IHss IHb IHs IHf. finR.
-Qed.
-
-End TypedInvB.
-
 (* ================================================================== whole programs *)
 
-(* THE BOOLEAN FRAGMENT TEST (over the untyped program): no consts / structs / enums; every
-   function has parameters of concrete types and a body made of the constructs of [frag_s]
-   (no calls yet): all numbers suffixed and in the range of their suffix. *)
-Definition in_sound_fragment (P : uprogram) : bool :=
-  match up_consts P, up_structs P, up_enums P with
-  | [], [], [] => forallb frag_fn (up_fns P)
-  | _, _, _ => false
+Fixpoint nodupL (l : list (list N)) : bool :=
+  match l with
+  | [] => true
+  | x :: r => negb (memL x r) && nodupL r
   end.
+
+Lemma nodupL_NoDup l : nodupL l = true -> NoDup l.
+Proof.
+  induction l as [|x r IH]; [constructor|]. cbn [nodupL]. intro H. apply andb_true_iff in H. destruct H as [H1 H2].
+  constructor; [|auto]. intro Hin. apply negb_true_iff in H1. unfold memL in H1.
+  rewrite <- not_true_iff_false in H1. apply H1. apply existsb_exists. exists x. split; [exact Hin|apply list_eqb_refl].
+Qed.
+
+(* THE BOOLEAN FRAGMENT TEST (over the untyped program): no consts; struct / enum / function
+   names pairwise distinct (HashMaps); the field / payload / parameter / return types are concrete
+   (no Unspecified, no const-sized arrays; named types allowed); every function body is made of
+   the constructs of [frag_s]: all numbers suffixed and in the range of their suffix. *)
+Definition variant_tys (v : uvariant) : list utype := match v with UVUnit _ => [] | UVTuple _ tys => tys end.
+
+(* a const is a literal of exactly its declared type, in the range of that type *)
+Definition const_frag (c : uconstdef) : bool :=
+  match uc_ty c, uc_value c with
+  | UTBool, (CETrue | CEFalse) => true
+  | UTUnsigned t, CENumUnsigned n t' => unsigned_eqb t t' && lit_u_ok n t
+  | UTSigned t, CENumSigned z t' => signed_eqb t t' && lit_s_ok z t
+  | _, _ => false
+  end.
+Definition const_t (c : uconstdef) : list N * texpr :=
+  (uc_name c,
+   match uc_value c with
+   | CEFalse => TE TFalse CBool
+   | CENumUnsigned n t => TE (TNumUnsigned n t) (CUnsigned t)
+   | CENumSigned z t => TE (TNumSigned z t) (CSigned t)
+   | _ => TE TTrue CBool
+   end).
+
+Definition in_sound_fragment (P : uprogram) : bool :=
+  nodupL (map uc_name (up_consts P)) && forallb const_frag (up_consts P) &&
+  nodupL (map us_name (up_structs P)) && nodupL (map ue_name (up_enums P)) &&
+  forallb (fun sd => forallb (fun ft => conc_uty (snd ft)) (us_fields sd)) (up_structs P) &&
+  forallb (fun ed => forallb (fun v => forallb conc_uty (variant_tys v)) (ue_variants ed)) (up_enums P) &&
+  nodupL (map uf_name (up_fns P)) && forallb frag_fn (up_fns P).
+
+Lemma check_consts_spec : forall cs done res,
+  forallb const_frag cs = true -> check_consts cs done = COk res -> res = rev done ++ map const_t cs.
+Proof.
+  induction cs as [|c cs IH]; intros done res Hf H; cbn [check_consts] in H.
+  - inversion H. cbn. rewrite app_nil_r. reflexivity.
+  - cbn [forallb] in Hf. apply andb_true_iff in Hf. destruct Hf as [Hc Hf].
+    assert (Hv : exists v, const_t c = (uc_name c, v) /\ check_consts cs ((uc_name c, v) :: done) = COk res).
+    { unfold const_frag in Hc. unfold const_t.
+      destruct (uc_ty c) eqn:Et; try discriminate Hc; destruct (uc_value c) eqn:Ev; try discriminate Hc;
+        cbn [const_lit cty_eqb cbind] in H.
+      - eauto.
+      - eauto.
+      - apply andb_true_iff in Hc. destruct Hc as [Hc _]. unfold unsigned_eqb in *.
+        destruct (unsigned_num_type_eq_dec t t0); [|discriminate]. subst. 
+        destruct (unsigned_num_type_eq_dec t0 t0); [|congruence]. cbn [cbind] in H. eauto.
+      - apply andb_true_iff in Hc. destruct Hc as [Hc _]. unfold signed_eqb in *.
+        destruct (signed_num_type_eq_dec t t0); [|discriminate]. subst.
+        destruct (signed_num_type_eq_dec t0 t0); [|congruence]. cbn [cbind] in H. eauto. }
+    destruct Hv as [v [Hct Hr]]. rewrite (IH _ _ Hf Hr). cbn [rev map]. rewrite Hct, <- app_assoc. reflexivity.
+Qed.
 
 Section Program.
 Variable intern : list N -> N.
@@ -1260,93 +1962,432 @@ Hypothesis intern_inj : forall a b, intern a = intern b -> a = b.
 Lemma Forall_filter' {A} (Q : A -> Prop) p l : Forall Q l -> Forall Q (filter p l).
 Proof. rewrite !Forall_forall. intros H x Hx. apply filter_In in Hx. apply H, Hx. Qed.
 
-Lemma In_insert_field {A} (x f : list N * A) l : In x (insert_field f l) -> x = f \/ In x l.
+Lemma In_insert_field {A} (x f : list N * A) l : In x (insert_field f l) <-> x = f \/ In x l.
 Proof.
-  induction l as [|g r IH]; cbn [insert_field]; [intros [<-|[]]; auto|].
-  destruct (name_ltb (fst f) (fst g)); [intros [<-|H]; auto|].
-  intros [<-|H]; [right; left; reflexivity|]. destruct (IH H); [auto|right; right; assumption].
+  induction l as [|g r IH]; cbn [insert_field].
+  - split; [intros [<-|[]]; auto|intros [->|[]]; left; reflexivity].
+  - destruct (name_ltb (fst f) (fst g)).
+    + split; [intros [<-|H]; auto|intros [->|H]; [left; reflexivity|right; exact H]].
+    + split.
+      * intros [<-|H]; [right; left; reflexivity|]. apply IH in H. destruct H; [auto|right; right; assumption].
+      * intros [->|[<-|H]]; [right; apply IH; auto|left; reflexivity|right; apply IH; auto].
 Qed.
 
-Lemma In_sort_fields {A} (x : list N * A) l : In x (sort_fields l) -> In x l.
+Lemma In_sort_fields {A} (x : list N * A) l : In x (sort_fields l) <-> In x l.
 Proof.
   unfold sort_fields.
-  assert (H : forall l acc, In x (fold_left (fun acc f => insert_field f acc) l acc) -> In x acc \/ In x l).
-  { induction l0 as [|f r IH]; intros acc Hx; [auto|]. cbn [fold_left] in Hx.
-    destruct (IH _ Hx) as [Hi|Hi]; [destruct (In_insert_field _ _ _ Hi) as [->|]; [right; left; reflexivity|auto]|right; right; assumption]. }
-  intro Hx. destruct (H _ _ Hx) as [[]|]; assumption.
+  assert (H : forall l acc, In x (fold_left (fun acc f => insert_field f acc) l acc) <-> In x acc \/ In x l).
+  { induction l0 as [|f r IH]; intros acc; cbn [fold_left]; [cbn; tauto|].
+    rewrite IH, In_insert_field. cbn [In]. split; intros H; [|]; intuition (subst; auto). }
+  rewrite H. cbn [In]. tauto.
 Qed.
 
-(* the entries of `typed`: the exported function passes Wt.wt_fn (no consts) for every program *)
-Definition Qwt (nd : list N * tfndef) : Prop :=
-  forall P' : Ast.program,
+Lemma find_by_name' (l : list ufndef) : NoDup (map uf_name l) ->
+  forall fd, In fd l -> find (fun d => list_eqb (uf_name d) (uf_name fd)) l = Some fd.
+Proof.
+  induction l as [|d l IH]; intros Hnd fd Hin; [destruct Hin|].
+  inversion Hnd as [|? ? Hnotin Hnd']; subst. cbn [find].
+  destruct Hin as [->|Hin]; [rewrite list_eqb_refl; reflexivity|].
+  destruct (list_eqb (uf_name d) (uf_name fd)) eqn:E; [|apply IH; assumption].
+  apply list_eqb_eq in E. exfalso. apply Hnotin. rewrite E. apply in_map. assumption.
+Qed.
+
+Lemma find_exists {A} (p : A -> bool) l x : In x l -> p x = true -> exists y, find p l = Some y.
+Proof.
+  induction l as [|a l IH]; [intros []|]. intros [->|Hin] Hp; cbn [find].
+  - rewrite Hp. eauto.
+  - destruct (p a); eauto.
+Qed.
+
+Definition has_key (k : list N) (l : list (list N * tfndef)) : Prop := exists v, In (k, v) l.
+
+Lemma has_key_step k name v l :
+  has_key k l -> has_key k ((name, v) :: filter (fun nd => negb (list_eqb (fst nd) name)) l).
+Proof.
+  intros [w Hw]. destruct (list_eqb k name) eqn:E.
+  - apply list_eqb_eq in E. subst. exists v. left. reflexivity.
+  - exists w. right. apply filter_In. split; [exact Hw|]. cbn [fst]. rewrite E. reflexivity.
+Qed.
+
+(* the pub-fn loop of UntypedProgram::type_check *)
+Lemma pub_loop_gen D fuel (J : list (list N * tfndef) -> Prop) (all : list ufndef) :
+  (forall st fd r, In fd all -> check_fn intern fuel D st fd = COk r -> J (st_typed st) ->
+     J ((uf_name fd, fst r) :: filter (fun nd => negb (list_eqb (fst nd) (uf_name fd))) (st_typed (snd r)))) ->
+  forall fns st st', (forall fd, In fd fns -> In fd all) ->
+  (fix go (fns : list ufndef) (st : cstate) : cres cstate :=
+     match fns with
+     | [] => COk st
+     | fd :: r =>
+         if uf_pub fd then
+           match uf_params fd with
+           | [] => CErr E_PubFnWithoutParams
+           | _ =>
+               do r1 <- check_fn intern fuel D st fd;
+               go r (mkSt (st_env (snd r1))
+                          ((uf_name fd, fst r1) ::
+                           filter (fun nd => negb (list_eqb (fst nd) (uf_name fd))) (st_typed (snd r1)))
+                          (st_checking (snd r1)))
+           end
+         else go r st
+     end) fns st = COk st' ->
+  J (st_typed st) -> J (st_typed st').
+Proof.
+  intros Hstep. induction fns as [|fd fns IH]; intros st st' Hsub H HJ.
+  - inversion H; subst. exact HJ.
+  - destruct (uf_pub fd).
+    + destruct (uf_params fd); [discriminate|].
+      apply cbind_ok in H. destruct H as [[tfd st1] [H1 H2]]. cbn [fst snd] in H2.
+      apply IH in H2; [exact H2|intros; apply Hsub; right; assumption|].
+      cbn [st_typed]. apply (Hstep _ _ _ (Hsub _ (or_introl eq_refl)) H1 HJ).
+    + apply IH in H; [exact H|intros; apply Hsub; right; assumption|exact HJ].
+Qed.
+
+(* every pub function has an entry after the loop (keys persist: the typed map only grows) *)
+Lemma pub_loop_keys D fuel : forall fns st st',
+  (fix go (fns : list ufndef) (st : cstate) : cres cstate :=
+     match fns with
+     | [] => COk st
+     | fd :: r =>
+         if uf_pub fd then
+           match uf_params fd with
+           | [] => CErr E_PubFnWithoutParams
+           | _ =>
+               do r1 <- check_fn intern fuel D st fd;
+               go r (mkSt (st_env (snd r1))
+                          ((uf_name fd, fst r1) ::
+                           filter (fun nd => negb (list_eqb (fst nd) (uf_name fd))) (st_typed (snd r1)))
+                          (st_checking (snd r1)))
+           end
+         else go r st
+     end) fns st = COk st' ->
+  (forall k, has_key k (st_typed st) -> has_key k (st_typed st')) /\
+  (forall fd, In fd fns -> uf_pub fd = true -> has_key (uf_name fd) (st_typed st')).
+Proof.
+  assert (Hkeys : forall st fd r k, check_fn intern fuel D st fd = COk r ->
+            has_key k (st_typed st) -> has_key k (st_typed (snd r))).
+  { intros st fd r k Hc Hk.
+    pose proof (check_typed_rel intern D (list N) has_key fuel) as Hrel.
+    assert (Hins : forall f st ufd r id k, (f < fuel)%nat -> has_key k (st_typed st) ->
+              find (fun d => list_eqb (uf_name d) id) (d_fns D) = Some ufd ->
+              check_fn intern f D st ufd = COk r -> has_key k (st_typed (snd r)) ->
+              has_key k ((id, fst r) :: st_typed (snd r))).
+    { intros _ _ _ r0 id k0 _ _ _ _ [v Hv]. exists v. right. exact Hv. }
+    exact (proj2 (proj2 (proj2 (proj2 (Hrel Hins fuel (le_n fuel))))) _ _ _ Hc k Hk). }
+  induction fns as [|fd fns IH]; intros st st' H.
+  - inversion H; subst. split; [auto|intros fd []].
+  - destruct (uf_pub fd) eqn:Epub.
+    + destruct (uf_params fd); [discriminate|].
+      apply cbind_ok in H. destruct H as [[tfd st1] [H1 H2]]. cbn [fst snd] in H2.
+      destruct (IH _ _ H2) as [Hp Hin]. cbn [st_typed] in Hp. split.
+      * intros k Hk. apply Hp. apply has_key_step. exact (Hkeys _ _ _ k H1 Hk).
+      * intros fd' [<-|Hin'] Hpub; [|apply Hin; assumption].
+        apply Hp. exists tfd. left. reflexivity.
+    + destruct (IH _ _ H) as [Hp Hin]. split; [exact Hp|].
+      intros fd' [<-|Hin'] Hpub; [congruence|apply Hin; assumption].
+Qed.
+
+
+Lemma nodup_key_unique {A} (l : list (list N * A)) k v v' :
+  NoDup (map fst l) -> In (k, v) l -> In (k, v') l -> v = v'.
+Proof.
+  induction l as [|[k0 v0] l IH]; intros Hnd H1 H2; [destruct H1|]. cbn [map fst] in Hnd. inversion Hnd as [|? ? Hn Hnd']; subst.
+  destruct H1 as [H1|H1]; destruct H2 as [H2|H2].
+  - congruence.
+  - inversion H1; subst. exfalso. apply Hn. change k with (fst (k, v')). apply in_map. exact H2.
+  - inversion H2; subst. exfalso. apply Hn. change k with (fst (k, v)). apply in_map. exact H1.
+  - eauto.
+Qed.
+
+Lemma In_assocL {A} (l : list (list N * A)) k v : In (k, v) l -> exists v', assocL k l = Some v'.
+Proof.
+  induction l as [|[k0 v0] l IH]; [intros []|]. intros [H|H]; cbn [assocL].
+  - inversion H; subst. rewrite list_eqb_refl. eauto.
+  - destruct (list_eqb k k0); eauto.
+Qed.
+
+Lemma assocL_sort {A} (l : list (list N * A)) k v :
+  NoDup (map fst l) -> assocL k l = Some v -> assocL k (sort_fields l) = Some v.
+Proof.
+  intros Hnd H. apply assocL_In in H.
+  destruct (In_assocL (sort_fields l) k v (proj2 (In_sort_fields _ _) H)) as [v' Hv'].
+  rewrite Hv'. f_equal. apply assocL_In in Hv'. apply (proj1 (In_sort_fields _ _)) in Hv'.
+  eapply nodup_key_unique; eauto.
+Qed.
+
+Lemma mapM_names {A B} (g : A -> cres (list N * B)) (nm : A -> list N) :
+  (forall a r, g a = COk r -> fst r = nm a) ->
+  forall l l', mapM g l = COk l' -> map fst l' = map nm l.
+Proof.
+  intros Hg. induction l as [|a l IH]; intros l' H; cbn [mapM] in H.
+  - inversion H. reflexivity.
+  - apply cbind_ok in H. destruct H as [x [Hx H]]. apply cbind_ok in H. destruct H as [r [Hr H]]. inversion H; subst.
+    cbn [map]. rewrite (Hg _ _ Hx), (IH _ Hr). reflexivity.
+Qed.
+
+Lemma mapM_In {A B} (g : A -> cres B) : forall l l' y, mapM g l = COk l' -> In y l' -> exists x, In x l /\ g x = COk y.
+Proof.
+  induction l as [|a l IH]; intros l' y H Hy; cbn [mapM] in H.
+  - inversion H; subst. destruct Hy.
+  - apply cbind_ok in H. destruct H as [x [Hx H]]. apply cbind_ok in H. destruct H as [r [Hr H]]. inversion H; subst.
+    destruct Hy as [<-|Hy]; [exists a; split; [left; reflexivity|exact Hx]|].
+    destruct (IH _ _ Hr Hy) as [x0 [Hin Hg]]. exists x0. split; [right; exact Hin|exact Hg].
+Qed.
+
+Lemma struct_def_conc sn en sd r :
+  check_struct_def sn en sd = COk r -> forallb (fun ft => conc_uty (snd ft)) (us_fields sd) = true ->
+  fst r = us_name sd /\ forall f t, In (f, t) (snd r) -> conc_ty t = true.
+Proof.
+  unfold check_struct_def. intros H Hc. apply cbind_ok in H. destruct H as [fields [Hf H]]. inversion H; subst; clear H.
+  split; [reflexivity|]. cbn [snd].
+  revert fields Hf Hc. generalize (@nil (list N)). induction (us_fields sd) as [|[n ty] fs IH]; intros seen fields Hf Hc.
+  - inversion Hf; subst. intros f t [].
+  - destruct (memL n seen); [discriminate|]. apply cbind_ok in Hf. destruct Hf as [ty' [Hty Hf]].
+    apply cbind_ok in Hf. destruct Hf as [r' [Hr Hf]]. inversion Hf; subst; clear Hf.
+    cbn [forallb snd] in Hc. apply andb_true_iff in Hc. destruct Hc as [Hc1 Hc2].
+    intros f t [Heq|Hin]; [inversion Heq; subst; eapply as_concrete_conc; eauto|eapply IH; eauto].
+Qed.
+
+Lemma mapM_conc sn en : forall tys tys', mapM (as_concrete_type sn en) tys = COk tys' ->
+  forallb conc_uty tys = true -> forallb conc_ty tys' = true.
+Proof.
+  induction tys as [|t tys IH]; intros tys' H Hc; cbn [mapM] in H.
+  - inversion H. reflexivity.
+  - apply cbind_ok in H. destruct H as [x [Hx H]]. apply cbind_ok in H. destruct H as [r [Hr H]]. inversion H; subst.
+    cbn [forallb] in *. apply andb_true_iff in Hc. destruct Hc as [Hc1 Hc2].
+    rewrite (as_concrete_conc _ _ _ _ Hx Hc1), (IH _ Hr Hc2). reflexivity.
+Qed.
+
+Lemma struct_def_nodup sn en sd r : check_struct_def sn en sd = COk r -> NoDup (map fst (snd r)).
+Proof.
+  unfold check_struct_def. intro H. apply cbind_ok in H. destruct H as [fields [Hf H]]. inversion H; subst; clear H. cbn [snd].
+  assert (Hgen : forall fs seen fields,
+    (fix go (seen : list (list N)) (fs : list (list N * utype)) : cres (list (list N * cty)) :=
+       match fs with
+       | [] => COk []
+       | (name, ty) :: r =>
+           if memL name seen then CErr E_DuplicateStructField else
+           do ty' <- as_concrete_type sn en ty; do r' <- go (name :: seen) r; COk ((name, ty') :: r')
+       end) seen fs = COk fields ->
+    NoDup (map fst fields) /\ forall x, In x seen -> ~ In x (map fst fields)).
+  { induction fs as [|[n ty] fs IH]; intros seen fields0 H0.
+    - inversion H0; subst. split; [constructor|auto].
+    - destruct (memL n seen) eqn:Em; [discriminate|]. apply cbind_ok in H0. destruct H0 as [ty' [_ H0]].
+      apply cbind_ok in H0. destruct H0 as [r' [Hr H0]]. inversion H0; subst; clear H0.
+      destruct (IH _ _ Hr) as [Hnd Hs]. cbn [map fst]. split.
+      + constructor; [apply Hs; left; reflexivity|exact Hnd].
+      + intros x Hx [Heq|Hin]; [subst x; exact (memL_false_notin _ _ Em Hx)|exact (Hs x (or_intror Hx) Hin)]. }
+  exact (proj1 (Hgen _ _ _ Hf)).
+Qed.
+
+Lemma enum_def_conc sn en ed r :
+  check_enum_def sn en ed = COk r -> forallb (fun v => forallb conc_uty (variant_tys v)) (ue_variants ed) = true ->
+  fst r = ue_name ed /\ forall v ts, In (v, Some ts) (snd r) -> forallb conc_ty ts = true.
+Proof.
+  unfold check_enum_def. intros H Hc. apply cbind_ok in H. destruct H as [variants [Hv H]]. inversion H; subst; clear H.
+  split; [reflexivity|]. cbn [snd].
+  revert variants Hv Hc. generalize (@nil (list N)). induction (ue_variants ed) as [|v vs IH]; intros seen variants Hv Hc.
+  - inversion Hv; subst. intros v ts [].
+  - destruct (memL (variant_name v) seen); [discriminate|]. apply cbind_ok in Hv. destruct Hv as [v' [Hv' Hv]].
+    apply cbind_ok in Hv. destruct Hv as [r' [Hr Hv]]. inversion Hv; subst; clear Hv.
+    cbn [forallb] in Hc. apply andb_true_iff in Hc. destruct Hc as [Hc1 Hc2].
+    intros v0 ts [Heq|Hin]; [|eapply IH; eauto].
+    rewrite Heq in Hv'. destruct v as [n|n tys]; [discriminate Hv'|].
+    apply cbind_ok in Hv'. destruct Hv' as [tys' [Htys Hv']]. inversion Hv'; subst.
+    cbn [variant_tys] in Hc1. eapply mapM_conc; eauto.
+Qed.
+
+Lemma NoDup_map_inj' {A B} (g : A -> B) l : (forall a b, g a = g b -> a = b) -> NoDup l -> NoDup (map g l).
+Proof.
+  intros Hg. induction 1 as [|x l Hn Hnd IH]; cbn [map]; constructor; [|exact IH].
+  intro Hin. apply in_map_iff in Hin. destruct Hin as [y [Hy Hin]]. apply Hg in Hy. subst. contradiction.
+Qed.
+
+Lemma tlookup_tbind_all_notin (l : list (N * Ast.ty)) m k : forall G,
+  ~ In k (map fst l) -> Wt.tlookup (Wt.tbind_all G l m) k = Wt.tlookup G k.
+Proof.
+  unfold Wt.tbind_all. induction l as [|[k0 t0] l IH]; intros G Hn; [reflexivity|]. cbn [fold_left fst snd].
+  rewrite IH; [|intro H; apply Hn; right; exact H]. rewrite tlookup_tbind.
+  destruct (N.eqb_spec k k0) as [->|Hne]; [exfalso; apply Hn; left; reflexivity|reflexivity].
+Qed.
+
+Lemma tlookup_tbind_all_in (l : list (N * Ast.ty)) m k t : forall G,
+  NoDup (map fst l) -> In (k, t) l -> Wt.tlookup (Wt.tbind_all G l m) k = Some (t, m).
+Proof.
+  induction l as [|[k0 t0] l IH]; intros G Hnd Hin; [destruct Hin|]. cbn [map fst] in Hnd. inversion Hnd as [|? ? Hn Hnd']; subst.
+  change (Wt.tbind_all G ((k0, t0) :: l) m) with (Wt.tbind_all (Wt.tbind G k0 t0 m) l m).
+  destruct Hin as [Heq|Hin].
+  - inversion Heq; subst. rewrite tlookup_tbind_all_notin by exact Hn. rewrite tlookup_tbind, N.eqb_refl. reflexivity.
+  - apply IH; assumption.
+Qed.
+
+(* the exported function passes Wt.wt_fn *)
+Definition Qwt (ens : list (list N * list (list N * option (list cty)))) (P' : Ast.program) (nd : list N * tfndef) : Prop :=
   exists t,
-    Wt.wt_block Wt.wt_fuel P' ([] :: Wt.tbind_all ([] :: [[]]) (Ast.fn_params (export_fn intern [] (snd nd))) true)
-                (Ast.fn_body (export_fn intern [] (snd nd))) = Some t /\
-    Wt.ty_eqb t (Ast.fn_ret (export_fn intern [] (snd nd))) = true.
+    Wt.wt_block Wt.wt_fuel P' ([] :: Wt.tbind_all ([] :: Wt.consts_tenv P') (Ast.fn_params (export_fn intern ens (snd nd))) true)
+                (Ast.fn_body (export_fn intern ens (snd nd))) = Some t /\
+    Wt.ty_eqb t (Ast.fn_ret (export_fn intern ens (snd nd))) = true.
 
 Theorem check_sound_fragment fuel P P' :
   in_sound_fragment P = true -> (fuel <= S Wt.wt_fuel)%nat ->
   check_program intern fuel P = COk P' -> Wt.wt_program P' = true.
 Proof.
   intros Hfrag Hfuel H. unfold in_sound_fragment in Hfrag.
-  destruct (up_consts P) eqn:Ec; [|discriminate]. destruct (up_structs P) eqn:Es; [|destruct (up_enums P); discriminate].
-  destruct (up_enums P) eqn:Ee; [|discriminate].
+  repeat (apply andb_true_iff in Hfrag; let Hx := fresh "Hx" in destruct Hfrag as [Hfrag Hx]).
+  rename Hx into Hfragf, Hx0 into Hnd, Hx1 into Hce, Hx2 into Hcs, Hx3 into Hnde, Hx4 into Hnds, Hx5 into Hcc, Hfrag into Hndc.
+  apply nodupL_NoDup in Hnd. apply nodupL_NoDup in Hnds. apply nodupL_NoDup in Hnde. apply nodupL_NoDup in Hndc.
   unfold check_program in H. apply cbind_ok in H. destruct H as [T [HT H]]. inversion H; subst; clear H.
-  unfold check_program_t in HT. rewrite Ec, Es, Ee in HT. cbn [check_consts rev mapM cbind map app] in HT.
+  unfold check_program_t in HT.
+  apply cbind_ok in HT. destruct HT as [consts [Hconsts HT]].
+  apply (check_consts_spec _ _ _ Hcc) in Hconsts. cbn [rev app] in Hconsts. subst consts.
+  apply cbind_ok in HT. destruct HT as [structs [Hstructs HT]].
+  apply cbind_ok in HT. destruct HT as [enums [Henums HT]].
+  apply cbind_ok in HT. destruct HT as [u0 [_ HT]].
   cbv zeta in HT.
   match type of HT with context [check_fn intern fuel ?D0] => set (D := D0) in * end.
   apply cbind_ok in HT. destruct HT as [stf [Hloop HT]].
-  match type of HT with (if ?c then _ else _) = _ => destruct c; [discriminate|] end.
+  match type of HT with (if ?c then _ else _) = _ => destruct c eqn:Eun; [discriminate|] end.
   inversion HT; subst; clear HT.
-  assert (HQins : forall f st ufd r id, (f < S (S Wt.wt_fuel))%nat -> Forall Qwt (st_typed st) ->
+  set (P' := export_program intern (mkTProgram (map const_t (up_consts P)) structs enums (st_typed stf) (up_main P))).
+  (* the definitions *)
+  assert (Hsn : map fst structs = map us_name (up_structs P)).
+  { eapply mapM_names; [|exact Hstructs]. intros a r Hr. unfold check_struct_def in Hr.
+    apply cbind_ok in Hr. destruct Hr as [? [_ Hr]]. inversion Hr. reflexivity. }
+  assert (Hen : map fst enums = map ue_name (up_enums P)).
+  { eapply mapM_names; [|exact Henums]. intros a r Hr. unfold check_enum_def in Hr.
+    apply cbind_ok in Hr. destruct Hr as [? [_ Hr]]. inversion Hr. reflexivity. }
+  assert (P_structs : forall name def, assocL name (d_structs D) = Some def ->
+            Ast.assocN (intern name) (Ast.p_structs P') = Some (xfields intern def)).
+  { intros name def Ha. cbn [P' export_program Ast.p_structs tp_structs].
+    change (map (fun sd : list N * list (list N * cty) => (intern (fst sd), map (fun ft : list N * cty => (intern (fst ft), export_ty intern (snd ft))) (snd sd))) (sort_fields structs))
+      with (map (fun sd : list N * list (list N * cty) => (intern (fst sd), xfields intern (snd sd))) (sort_fields structs)).
+    rewrite (assocN_map_intern intern intern_inj). rewrite (assocL_sort structs name def); [reflexivity| |exact Ha].
+    rewrite Hsn. exact Hnds. }
+  assert (P_enums : forall name vs, assocL name (d_enums D) = Some vs ->
+            Ast.assocN (intern name) (Ast.p_enums P') = Some (xvariants intern vs)).
+  { intros name vs Ha. cbn [P' export_program Ast.p_enums tp_enums].
+    change (map (fun ed : list N * list (list N * option (list cty)) => (intern (fst ed), map (fun v : list N * option (list cty) => match snd v with Some ts => map (export_ty intern) ts | None => [] end) (snd ed))) (sort_fields enums))
+      with (map (fun ed : list N * list (list N * option (list cty)) => (intern (fst ed), xvariants intern (snd ed))) (sort_fields enums)).
+    rewrite (assocN_map_intern intern intern_inj). rewrite (assocL_sort enums name vs); [reflexivity| |exact Ha].
+    rewrite Hen. exact Hnde. }
+  assert (D_conc_s : forall name def f t, assocL name (d_structs D) = Some def -> assocL f def = Some t -> conc_ty t = true).
+  { intros name def f t Ha Hf. apply assocL_In in Ha. apply assocL_In in Hf. cbn [D d_structs] in Ha.
+    destruct (mapM_In _ _ _ _ Hstructs Ha) as [sd [Hsd Hcd]]. rewrite forallb_forall in Hcs.
+    destruct (struct_def_conc _ _ _ _ Hcd (Hcs _ Hsd)) as [_ Hall]. eapply Hall. exact Hf. }
+  assert (D_nodup_s : forall name def, assocL name (d_structs D) = Some def -> NoDup (map fst def)).
+  { intros name def Ha. apply assocL_In in Ha. cbn [D d_structs] in Ha.
+    destruct (mapM_In _ _ _ _ Hstructs Ha) as [sd [Hsd Hcd]]. exact (struct_def_nodup _ _ _ _ Hcd). }
+  assert (D_conc_e : forall name vs v ts, assocL name (d_enums D) = Some vs -> assocL v vs = Some (Some ts) -> forallb conc_ty ts = true).
+  { intros name vs v ts Ha Hv. apply assocL_In in Ha. apply assocL_In in Hv. cbn [D d_enums] in Ha.
+    destruct (mapM_In _ _ _ _ Henums Ha) as [ed [Hed Hcd]]. rewrite forallb_forall in Hce.
+    destruct (enum_def_conc _ _ _ _ Hcd (Hce _ Hed)) as [_ Hall]. eapply Hall. exact Hv. }
+  assert (Hdc : forall x t, assocL x (d_consts D) = Some t -> exists c, In c (up_consts P) /\ uc_name c = x /\ ty_of (snd (const_t c)) = t).
+  { intros x t Ha. apply assocL_In in Ha. cbn [D d_consts] in Ha. rewrite map_map in Ha. apply in_map_iff in Ha.
+    destruct Ha as [c [Hc Hin]]. inversion Hc; subst. exists c. auto. }
+  assert (D_conc_c : forall x t, assocL x (d_consts D) = Some t -> conc_ty t = true).
+  { intros x t Ha. destruct (Hdc _ _ Ha) as [c [Hin [_ <-]]]. rewrite forallb_forall in Hcc. pose proof (Hcc _ Hin) as Hc.
+    unfold const_frag in Hc. unfold const_t. cbn [snd].
+    destruct (uc_ty c) as [|tu|ts| | | | |]; try discriminate Hc;
+      destruct (uc_value c) as [| |n tv|z tv| | | | | |]; try discriminate Hc; cbn [ty_of conc_ty]; try reflexivity;
+      apply andb_true_iff in Hc; destruct Hc as [He Hl].
+    - unfold unsigned_eqb in He. destruct (unsigned_num_type_eq_dec tu tv); [subst|discriminate]. destruct tv; try discriminate Hl; reflexivity.
+    - unfold signed_eqb in He. destruct (signed_num_type_eq_dec ts tv); [subst|discriminate]. destruct tv; try discriminate Hl; reflexivity. }
+  assert (gc_consts : forall x t, assocL x (d_consts D) = Some t ->
+            exists m', Wt.tlookup (Wt.consts_tenv P') (intern x) = Some (export_ty intern t, m')).
+  { intros x t Ha. destruct (Hdc _ _ Ha) as [c [Hin [<- <-]]]. exists false.
+    unfold Wt.consts_tenv. cbn [P' export_program Ast.p_consts tp_consts tp_enums].
+    apply tlookup_tbind_all_in.
+    - rewrite !map_map. cbn [fst]. rewrite <- (map_map uc_name intern).
+      apply NoDup_map_inj'; [exact intern_inj|exact Hndc].
+    - rewrite !map_map. apply in_map_iff. exists c. split; [|exact Hin]. cbn [fst snd].
+      f_equal. destruct (snd (const_t c)); reflexivity. }
+  assert (D_frag : forall ufd, In ufd (d_fns D) -> frag_fn ufd = true).
+  { intros ufd Hin. rewrite forallb_forall in Hfragf. apply Hfragf. exact Hin. }
+  assert (Hfind : forall fd, In fd (up_fns P) -> find (fun d => list_eqb (uf_name d) (uf_name fd)) (d_fns D) = Some fd).
+  { intros fd Hin. apply (find_by_name' _ Hnd _ Hin). }
+  (* F1: the entries have the static signatures *)
+  assert (HQs : Forall (Qs D) (st_typed stf)).
+  { eapply (pub_loop_gen D fuel (Forall (Qs D)) (up_fns P)); [|intros fd Hin; exact Hin|exact Hloop|constructor].
+    intros st fd r Hin Hc HJ. constructor.
+    - apply (Qs_ins intern D fuel st fd r (uf_name fd) (Hfind _ Hin) Hc).
+    - apply Forall_filter'. exact (proj2 (proj2 (proj2 (proj2 (Qs_pres intern D fuel)))) _ _ _ Hc HJ). }
+  (* F2: every function has an entry *)
+  assert (Hkey : forall fd, In fd (up_fns P) -> has_key (uf_name fd) (st_typed stf)).
+  { intros fd Hin. destruct (uf_pub fd) eqn:Epub.
+    - exact (proj2 (pub_loop_keys D fuel _ _ _ Hloop) fd Hin Epub).
+    - rewrite <- not_true_iff_false in Eun. rewrite existsb_exists in Eun.
+      destruct (assocL (uf_name fd) (st_typed stf)) as [tfd|] eqn:Ea.
+      + exists tfd. apply assocL_In. exact Ea.
+      + exfalso. apply Eun. exists fd. split; [exact Hin|]. rewrite Epub, Ea. reflexivity. }
+  (* the exported program lists every function with its static signature *)
+  assert (P_sig : forall id ufd tps rty,
             find (fun d => list_eqb (uf_name d) id) (d_fns D) = Some ufd ->
-            check_fn intern f D st ufd = COk r -> Qwt (id, fst r)).
-  { intros f st ufd [tfd st'] id Hf _ Hfind Hc P'. cbn [fst snd].
-    apply find_some in Hfind. destruct Hfind as [Hin _]. cbn [D d_fns] in Hin.
-    rewrite forallb_forall in Hfrag.
-    eapply (fn_sound intern intern_inj [] P' D eq_refl f ufd st tfd st' Wt.wt_fuel); [apply Hfrag; exact Hin|exact Hc|lia]. }
-  assert (HQ : Forall Qwt (st_typed stf)).
-  { clear - Hloop HQins Hfuel Hfrag intern_inj.
-    assert (Hgen : forall fns st st', (forall fd, In fd fns -> In fd (up_fns P)) ->
-       (fix go (fns : list ufndef) (st : cstate) : cres cstate :=
-          match fns with
-          | [] => COk st
-          | fd :: r =>
-              if uf_pub fd then
-                match uf_params fd with
-                | [] => CErr E_PubFnWithoutParams
-                | _ =>
-                    do r1 <- check_fn intern fuel D st fd;
-                    go r (mkSt (st_env (snd r1))
-                               ((uf_name fd, fst r1) ::
-                                filter (fun nd => negb (list_eqb (fst nd) (uf_name fd))) (st_typed (snd r1)))
-                               (st_checking (snd r1)))
-                end
-              else go r st
-          end) fns st = COk st' -> Forall Qwt (st_typed st) -> Forall Qwt (st_typed st')).
-    { induction fns as [|fd fns IH]; intros st st' Hsub H HQ.
-      - inversion H; subst. exact HQ.
-      - destruct (uf_pub fd).
-        + destruct (uf_params fd); [discriminate|].
-          apply cbind_ok in H. destruct H as [[tfd st1] [H1 H2]]. cbn [fst snd] in H2.
-          apply IH in H2; [exact H2|intros; apply Hsub; right; assumption|].
-          cbn [st_typed]. constructor.
-          * intro P'. cbn [snd]. rewrite forallb_forall in Hfrag.
-            eapply (fn_sound intern intern_inj [] P' D eq_refl fuel fd st tfd st1 Wt.wt_fuel);
-              [apply Hfrag; apply Hsub; left; reflexivity|exact H1|exact Hfuel].
-          * apply Forall_filter'.
-            exact (proj2 (proj2 (proj2 (proj2 (check_typed_inv_b intern D Qwt (S (S Wt.wt_fuel)) HQins fuel ltac:(lia))))) _ _ _ H1 HQ).
-        + apply IH in H; [exact H|intros; apply Hsub; right; assumption|exact HQ]. }
-    eapply Hgen; [|exact Hloop|constructor]. auto. }
+            sig_params D (uf_params ufd) = COk tps -> concrete_of D (uf_ty ufd) = COk rty ->
+            exists d, Ast.find_fn P' (intern id) = Some d /\ Ast.fn_params d = xparams intern tps /\
+                      Ast.fn_ret d = export_ty intern rty).
+  { intros id ufd tps rty Hf Hsp Hsr.
+    pose proof (find_some _ _ Hf) as [Hin Hname]. apply list_eqb_eq in Hname. subst id.
+    destruct (Hkey _ Hin) as [tfd Htfd].
+    rewrite Forall_forall in HQs.
+    destruct (HQs _ Htfd) as [ufd0 [Hf0 [_ [_ Hn0]]]]. cbn [fst snd] in *.
+    unfold Ast.find_fn. cbn [P' export_program Ast.p_fns tp_fns tp_enums].
+    destruct (find_exists (fun d => Ast.fn_name d =? intern (uf_name ufd))
+                (map (fun nd => export_fn intern enums (snd nd)) (sort_fields (st_typed stf)))
+                (export_fn intern enums tfd)) as [d Hd].
+    { apply in_map_iff. exists (uf_name ufd, tfd). split; [reflexivity|]. apply (proj2 (In_sort_fields _ _)). exact Htfd. }
+    { cbn [export_fn Ast.fn_name]. rewrite Hn0. apply N.eqb_refl. }
+    exists d. split; [exact Hd|].
+    pose proof (find_some _ _ Hd) as [Hind Hpd]. apply in_map_iff in Hind. destruct Hind as [nd' [<- Hnd']].
+    apply (proj1 (In_sort_fields _ _)) in Hnd'. cbn [export_fn Ast.fn_name] in Hpd. apply N.eqb_eq in Hpd. apply intern_inj in Hpd.
+    destruct (HQs _ Hnd') as [ufd1 [Hf1 [Hsp1 [Hsr1 Hn1]]]]. rewrite <- Hn1, Hpd in Hf1. rewrite Hf in Hf1. inversion Hf1; subst ufd1.
+    rewrite Hsp in Hsp1. rewrite Hsr in Hsr1. inversion Hsp1. inversion Hsr1.
+    cbn [export_fn Ast.fn_params Ast.fn_ret]. split; reflexivity. }
+  (* F3: every entry passes wt_fn *)
+  assert (Hfn : forall f fd st tfd st', (f <= S Wt.wt_fuel)%nat -> In fd (d_fns D) ->
+            check_fn intern f D st fd = COk (tfd, st') -> Forall (Qs D) (st_typed st) -> Qwt enums P' (uf_name fd, tfd)).
+  { intros f fd st tfd st' Hf Hin Hc HQ. unfold Qwt. cbn [snd].
+    eapply (fn_sound intern intern_inj enums P' D (Wt.consts_tenv P') (eq_refl : id (enums = d_enums D)) P_structs P_enums D_conc_s D_nodup_s D_conc_c gc_consts D_conc_e D_frag P_sig f fd st tfd st' Wt.wt_fuel);
+      [apply D_frag; exact Hin|exact Hc|exact Hf|exact HQ]. }
+  assert (HQins : forall f st ufd r id (k : unit), (f < S (S Wt.wt_fuel))%nat ->
+            Forall (fun nd => Qs D nd /\ Qwt enums P' nd) (st_typed st) ->
+            find (fun d => list_eqb (uf_name d) id) (d_fns D) = Some ufd ->
+            check_fn intern f D st ufd = COk r -> Forall (fun nd => Qs D nd /\ Qwt enums P' nd) (st_typed (snd r)) ->
+            Forall (fun nd => Qs D nd /\ Qwt enums P' nd) ((id, fst r) :: st_typed (snd r))).
+  { intros f st ufd [tfd st'] id _ Hf HQ Hfd Hc HQ'. constructor; [|exact HQ']. split.
+    - exact (Qs_ins intern D f st ufd _ id Hfd Hc).
+    - cbn [fst snd]. pose proof (find_some _ _ Hfd) as [Hin _].
+      apply (Hfn f ufd st tfd st' ltac:(lia) Hin Hc).
+      eapply Forall_impl; [|exact HQ]. intros a [Ha _]. exact Ha. }
+  assert (HQ : Forall (fun nd => Qs D nd /\ Qwt enums P' nd) (st_typed stf)).
+  { eapply (pub_loop_gen D fuel (Forall (fun nd => Qs D nd /\ Qwt enums P' nd)) (up_fns P));
+      [|intros fd Hin; exact Hin|exact Hloop|constructor].
+    intros st fd [tfd st1] Hin Hc HJ. cbn [fst snd]. constructor.
+    - split; [exact (Qs_ins intern D fuel st fd _ (uf_name fd) (Hfind _ Hin) Hc)|].
+      apply (Hfn fuel fd st tfd st1 Hfuel Hin Hc).
+      eapply Forall_impl; [|exact HJ]. intros a [Ha _]. exact Ha.
+    - apply Forall_filter'.
+      exact (proj2 (proj2 (proj2 (proj2 (check_typed_rel intern D unit (fun _ l => Forall (fun nd => Qs D nd /\ Qwt enums P' nd) l)
+               (S (S Wt.wt_fuel)) HQins fuel ltac:(lia))))) _ _ _ Hc tt HJ). }
   (* the exported program *)
-  unfold Wt.wt_program, export_program. cbn [Ast.p_consts Ast.p_fns tp_consts tp_fns tp_enums map forallb andb].
-  apply forallb_forall. intros d Hd. apply in_map_iff in Hd. destruct Hd as [nd [<- Hnd]].
-  apply In_sort_fields in Hnd. rewrite Forall_forall in HQ. specialize (HQ _ Hnd).
-  unfold Wt.wt_fn.
-  match goal with |- context [Wt.wt_block Wt.wt_fuel ?PP _ _] => destruct (HQ PP) as [t [Hw Ht]] end.
-  change (Wt.consts_tenv _) with ([[]] : Wt.tenv). rewrite Hw. exact Ht.
+  fold P'. unfold Wt.wt_program. apply andb_true_iff. split.
+  - (* the consts are literals of their types *)
+    cbn [P' export_program Ast.p_consts tp_consts tp_enums]. apply forallb_forall. intros c' Hc'.
+    apply in_map_iff in Hc'. destruct Hc' as [nc [<- Hnc]]. apply in_map_iff in Hnc. destruct Hnc as [c [<- Hin]].
+    rewrite forallb_forall in Hcc. pose proof (Hcc _ Hin) as Hc. unfold const_frag in Hc. unfold const_t. cbn [snd fst].
+    assert (HS : Wt.wt_fuel = S (pred Wt.wt_fuel)) by reflexivity. rewrite HS.
+    destruct (uc_ty c) as [|tu|ts| | | | |]; try discriminate Hc;
+      destruct (uc_value c) as [| |n tv|z tv| | | | | |]; try discriminate Hc;
+      cbn [export_expr export_ty Wt.is_lit Wt.wt_expr Wt.is_bool andb]; try reflexivity;
+      apply andb_true_iff in Hc; destruct Hc as [He Hl].
+    + unfold unsigned_eqb in He. destruct (unsigned_num_type_eq_dec tu tv); [subst|discriminate]. apply (lit_u_fits _ _ Hl).
+    + unfold signed_eqb in He. destruct (signed_num_type_eq_dec ts tv); [subst|discriminate]. apply (lit_s_fits _ _ Hl).
+  - cbn [P' export_program Ast.p_fns tp_fns tp_enums].
+    apply forallb_forall. intros d Hd. apply in_map_iff in Hd. destruct Hd as [nd [<- Hnd']].
+    apply (proj1 (In_sort_fields _ _)) in Hnd'. rewrite Forall_forall in HQ. destruct (HQ _ Hnd') as [_ [t [Hw Ht]]].
+    unfold Wt.wt_fn. fold P'. rewrite Hw. exact Ht.
 Qed.
 
 End Program.
 
+Print Assumptions sound_all.
+Print Assumptions fn_sound.
 Print Assumptions check_sound_fragment.
